@@ -1037,10 +1037,15 @@ Fixpoint kets (T: ty) (e: option (tclass * N)) : list (tclass * N) :=
   match T with
   | TImp t x => kets x (Some (orkey e (key t)))
   | TExp t x => kets x None ++ [orkey e (key t)]
+  | TChoice _ | TAny => match e with Some k => [k] | None => [] end     (* no tag of its own *)
   | _ => [orkey e (match tagset_of' T with [u] => key u | _ => (Univ, 0) end)]
   end.
 
-Definition tagged_base (T: ty) : bool := match base_of T with TChoice _ | TAny => false | _ => true end.
+(* a type with an outermost tag of its own (IMPLICIT tagging needs one to replace) *)
+Fixpoint headed (T: ty) : bool :=
+  match T with TChoice _ | TAny => false | TImp _ x => headed x | _ => true end.
+Fixpoint impl_ok (T: ty) : bool :=
+  match T with TImp _ x => headed x && impl_ok x | TExp _ x => impl_ok x | _ => true end.
 
 Lemma tag_implicitly_keys ts t : ts <> [] ->
   exists ts' last, ts = ts' ++ [last] /\ tag_implicitly ts t = ts' ++ [mkTag (tcls t) (tcon last) (tnum t)].
@@ -1048,44 +1053,73 @@ Proof. intros H. destruct (exists_last H) as (ts' & last & ->). exists ts', last
 
 Lemma keys_app a b : keys (a ++ b) = keys a ++ keys b. Proof. apply map_app. Qed.
 
-Lemma keys_kets : forall T, wf_tags T = true -> tagged_base T = true ->
-  exists ts, tagset_of T = Ok ts /\ ts <> [] /\ keys ts = kets T None
-             /\ forall t, keys (tag_implicitly ts t) = kets T (Some (key t)).
+Lemma keys_kets : forall T, wf_tags T = true -> impl_ok T = true ->
+  exists ts, tagset_of T = Ok ts /\ keys ts = kets T None
+             /\ (headed T = true -> ts <> [] /\ forall t, keys (tag_implicitly ts t) = kets T (Some (key t))).
 Proof.
   induction T as [| | | | | | | | n|fs IH|fs IH|t IH|t IH|alts IH| |tg x IH|tg x IH] using ty_ind';
-    intros Hw Hp; try discriminate Hp;
-    try (eexists; split; [reflexivity|split; [discriminate|split; [reflexivity|intros t0; reflexivity]]]).
+    intros Hw Hp;
+    try (eexists; split; [reflexivity|split; [reflexivity|intros _; split; [discriminate|intros t0; reflexivity]]]);
+    try (exists []; split; [reflexivity|split; [reflexivity|intros Hh; discriminate Hh]]).
   - (* TImp *)
     cbn [wf_tags] in Hw. apply andb_true_iff in Hw. destruct Hw as [Hcl Hw].
-    destruct (IH Hw Hp) as (ts & Hts & Hne & Hk & Hk2).
+    cbn [impl_ok] in Hp. apply andb_true_iff in Hp. destruct Hp as [Hh Hp].
+    destruct (IH Hw Hp) as (ts & Hts & Hk & Hk2). destruct (Hk2 Hh) as [Hne Hk3].
     cbn [tagset_of]. rewrite Hts. cbn [bind]. exists (tag_implicitly ts tg).
     destruct (tag_implicitly_keys ts tg Hne) as (ts' & last & E1 & E2).
-    split; [reflexivity|]. split; [rewrite E2; destruct ts'; discriminate|].
-    split; [cbn [kets orkey]; apply Hk2|].
-    intros t0. cbn [kets orkey]. rewrite <- Hk2. rewrite E2, tag_implicitly_spec. rewrite E1, tag_implicitly_spec.
+    split; [reflexivity|]. split; [cbn [kets orkey]; apply Hk3|]. intros _.
+    split; [rewrite E2; destruct ts'; discriminate|].
+    intros t0. cbn [kets orkey]. rewrite <- Hk3. rewrite E2, tag_implicitly_spec. rewrite E1, tag_implicitly_spec.
     rewrite !keys_app. reflexivity.
   - (* TExp *)
-    cbn [wf_tags] in Hw. apply andb_true_iff in Hw. destruct Hw as [Hcl Hw].
-    destruct (IH Hw Hp) as (ts & Hts & Hne & Hk & Hk2).
+    cbn [wf_tags] in Hw. apply andb_true_iff in Hw. destruct Hw as [Hcl Hw]. cbn [impl_ok] in Hp.
+    destruct (IH Hw Hp) as (ts & Hts & Hk & _).
     cbn [tagset_of]. rewrite Hts. cbn [bind]. unfold tag_explicitly.
     assert (Hnu: tcls tg <> Univ) by (destruct (tcls tg); try discriminate; cbn in Hcl; congruence).
     exists (ts ++ [mkTag (tcls tg) true (tnum tg)]).
     split; [destruct (tcls tg); try reflexivity; congruence|].
+    split; [rewrite keys_app, Hk; reflexivity|]. intros _.
     split; [destruct ts; discriminate|].
-    split; [rewrite keys_app, Hk; reflexivity|].
     intros t0. rewrite tag_implicitly_spec, keys_app, Hk. reflexivity.
 Qed.
 
-Lemma kets_nonempty : forall T e, kets T e <> [].
+Lemma kets_nonempty : forall T e, headed T = true -> kets T e <> [].
 Proof.
-  induction T as [| | | | | | | | n|fs IH|fs IH|t IH|t IH|alts IH| |tg x IH|tg x IH] using ty_ind'; intros e;
+  induction T as [| | | | | | | | n|fs IH|fs IH|t IH|t IH|alts IH| |tg x IH|tg x IH] using ty_ind'; intros e Hh;
     try discriminate.
-  - cbn [kets]. apply IH.
+  - cbn [kets]. apply IH. exact Hh.
   - cbn [kets]. destruct (kets x None); discriminate.
 Qed.
 
-Lemma plain_of_tagged T : tagged_base T = true -> plain_map T.
-Proof. intros H. apply plain_map_tagged. destruct T; try exact I; discriminate H. Qed.
+(* ---------- what a spec resolves to: leaves of CHOICE types ---------- *)
+
+(* the tag sets an encoding of T can show: one, or those of the alternatives of an untagged CHOICE *)
+Fixpoint leaves (T: ty) : list tagset :=
+  match T with TChoice alts => flat_map leaves alts | _ => [tagset_of' T] end.
+
+(* how many CHOICE levels the decoded value descends at its head *)
+Fixpoint cdv (T: ty) (v: val) {struct v} : nat :=
+  match T, v with TChoice alts, VChoice i x => S (cdv (nth i alts TNull) x) | _, _ => O end.
+
+(* effectiveTagSet of the decoded value is one of the leaves *)
+Definition ets_ok (T: ty) (v: val) : Prop := forall g, (cdv T v < g)%nat -> In (effective_tagset g T v) (leaves T).
+
+Definition not_choice (T: ty) : Prop := match T with TChoice _ => False | _ => True end.
+
+Lemma ets_plain T v : not_choice T -> ets_ok T v /\ cdv T v = 0%nat.
+Proof.
+  intros H. split.
+  - intros g Hg. destruct g as [|g]; [lia|]. destruct T; try contradiction; cbn [effective_tagset leaves]; try (left; reflexivity);
+      destruct v; left; reflexivity.
+  - destruct T; try contradiction; destruct v; reflexivity.
+Qed.
+
+Lemma ets_choice alts j a v : nth_error alts j = Some a -> ets_ok a v -> ets_ok (TChoice alts) (VChoice j v).
+Proof.
+  intros Hn He g Hg. cbn [cdv] in Hg. rewrite (nth_error_nth alts j TNull Hn) in Hg.
+  destruct g as [|g]; [lia|]. cbn [effective_tagset]. rewrite (nth_error_nth alts j TNull Hn).
+  cbn [leaves]. apply in_flat_map. exists a. split; [apply (nth_error_In _ _ Hn)|apply He; lia].
+Qed.
 
 (* ---------- the same two levels for any spec that resolves to T0 (a type, or a tag map) ---------- *)
 
@@ -1104,55 +1138,64 @@ Definition disp_explicit (rec: spec -> tagset -> option (option N) -> bool -> bo
   | None => raw_loop rec sp ts f DNoValue
   end.
 
+Definition len_ok (len: option N) (body: bytes) : Prop :=
+  match len with Some l => l = N.of_nat (length body) | None => True end.
+
 (* how the dispatch treats spec sp on the way to type T0: EXPLICIT levels while the tags read are a
-   proper outer part of T0's tag set, T0's value decoder once they are all of it *)
-Record sp_ok (sp: spec) (T0: ty) : Prop := {
-  so_match : forall rec f ts len sfun cd fl, keys ts = keys (tagset_of' T0) -> by_type BER T0 = Some (cd, fl) ->
-     dispatch BER rec f sp ts len sfun = disp_value rec f cd fl T0 ts len sfun;
-  so_explicit : forall rec f t acc len pre, keys (tagset_of' T0) = pre ++ keys (t :: acc) -> pre <> [] ->
+   proper outer part of a tag set of T0; once they are all of it, T0's value decoder, run d levels of
+   fuel lower (one for every untagged CHOICE the spec goes through), and its value wrapped by W into
+   what the spec's own type returns *)
+Record sp_ok (sp: spec) (T0: ty) (W: val -> dval) (d: nat) : Prop := {
+  so_match : forall f ts len cd fl body v,
+     In (keys ts) (map keys (leaves T0)) -> by_type BER T0 = Some (cd, fl) ->
+     ets_ok T0 v -> (cdv T0 v <= f)%nat -> len_ok len body ->
+     consumes (dec_value (dec_call BER f) f cd fl (Some T0) ts len false) body (DV T0 v) ->
+     consumes (dispatch BER (dec_call BER (f + d)) (f + d) sp ts len false) body (W v);
+  so_explicit : forall rec f t acc len ls pre, In ls (leaves T0) -> keys ls = pre ++ keys (t :: acc) -> pre <> [] ->
      tcon t = true -> tcls t <> Univ ->
-     dispatch BER rec f sp (t :: acc) len false = disp_explicit rec f sp (t :: acc) len
+     dispatch BER rec f sp (t :: acc) len false = disp_explicit rec f sp (t :: acc) len;
+  so_dv : forall v, is_dv (W v);
+  (* an untagged ANY is only ever met under its own type as the spec *)
+  so_any : T0 = TAny -> sp = STy TAny /\ d = 0%nat /\ forall v, W v = DV TAny v
 }.
 
-Lemma sp_ok_sty T0 : tagged_base T0 = true -> sp_ok (STy T0) T0.
+Lemma run_def_consumes (p: proc dval) content v l : l = N.of_nat (length content) ->
+  consumes p content v -> consumes (run_def p l) content v.
+Proof. intros ->. apply run_value_def. Qed.
+
+Lemma disp_value_consumes rec f cd fl T0 ts len body v : len_ok len body ->
+  consumes (dec_value rec f cd fl (Some T0) ts len false) body v ->
+  consumes (disp_value rec f cd fl T0 ts len false) body v.
 Proof.
-  intros Htb. pose proof (plain_of_tagged T0 Htb) as Hpm. split.
-  - intros rec f ts len sfun cd fl Hk Hby. apply tagset_eqb_keys in Hk.
-    assert (Hpp: tm_postponed (tagmap_of T0) = false) by (rewrite Hpm; reflexivity).
-    destruct len as [l|]; [apply (dispatch_match_def _ _ _ _ _ _ cd fl Hk Hpp Hby)|apply (dispatch_match_indef _ _ _ _ _ cd fl Hk Hpp Hby)].
-  - intros rec f t acc len pre Hk Hpre Hcon Hcls.
-    assert (Hmis: tagset_eqb (t :: acc) (tagset_of' T0) = false).
-    { apply tagset_eqb_keys_false. intros E. apply (f_equal (@length _)) in Hk. unfold keys in Hk.
-      rewrite app_length, !map_length in Hk. destruct pre; [congruence|]. cbn [length] in *. lia. }
-    destruct len as [l|];
-      [apply (dispatch_explicit_def _ _ _ _ _ _ Hmis (plain_map_contains T0 _ Hpm Hmis) Hcon Hcls)
-      |apply (dispatch_explicit_indef _ _ _ _ _ Hmis (plain_map_contains T0 _ Hpm Hmis) Hcon Hcls)].
+  intros Hl H. unfold disp_value. destruct len as [l|]; [|exact H]. apply run_def_consumes; [exact Hl|exact H].
 Qed.
 
-Lemma item_of_value_sp : forall f sp T0 acc n allow sfun v cd fl,
+Lemma node_len_ok n : len_ok (node_len n) (node_body n).
+Proof. unfold len_ok. destruct (node_len n) as [l|] eqn:E; [apply (node_len_def n l E)|exact I]. Qed.
+
+Lemma item_of_value_sp : forall f sp T0 W d acc n allow v cd fl,
   shape n -> fitsn f n -> (allow = true -> eoc_start (node_raw n) = false) ->
-  sp_ok sp T0 -> keys (node_wire n :: acc) = keys (tagset_of' T0) -> by_type BER T0 = Some (cd, fl) ->
-  consumes (dec_value (dec_call BER f) f cd fl (Some T0) (node_wire n :: acc) (node_len n) sfun) (node_body n) v ->
-  consumes (dec_call BER (S f) sp acc None allow sfun) (node_raw n) v.
+  sp_ok sp T0 W d -> In (keys (node_wire n :: acc)) (map keys (leaves T0)) -> by_type BER T0 = Some (cd, fl) ->
+  ets_ok T0 v -> (cdv T0 v <= f)%nat ->
+  consumes (dec_value (dec_call BER f) f cd fl (Some T0) (node_wire n :: acc) (node_len n) false) (node_body n) (DV T0 v) ->
+  consumes (dec_call BER (S (f + d)) sp acc None allow false) (node_raw n) (W v).
 Proof.
-  intros f sp T0 acc n allow sfun v cd fl Hsh [Hmax Hf] Heoc Hsp Heq Hby Hval.
+  intros f sp T0 W d acc n allow v cd fl Hsh [Hmax Hf] Heoc Hsp Heq Hby Hets Hcd Hval.
   destruct (shape_split n Hsh) as (ib & lb & Hi & Hl & Eraw). rewrite Eraw in *.
-  apply (call_consumes f sp acc allow sfun ib lb (node_wire n) (node_len n) (node_body n) v Hi Hl).
+  apply (call_consumes (f + d) sp acc allow false ib lb (node_wire n) (node_len n) (node_body n) (W v) Hi Hl).
   - rewrite !app_length in Hf. lia.
   - intros Ha. apply (eoc_start_prefix _ (node_body n)); [apply (hdr_len2 _ _ _ _ Hi Hl)|apply Heoc; exact Ha].
-  - rewrite (so_match sp T0 Hsp _ _ _ _ _ cd fl Heq Hby). unfold disp_value.
-    destruct (node_len n) as [l|] eqn:El; [|exact Hval].
-    rewrite (node_len_def n l El). apply run_value_def. rewrite <- (node_len_def n l El). exact Hval.
+  - apply (so_match sp T0 W d Hsp f _ _ cd fl _ v Heq Hby Hets Hcd (node_len_ok n) Hval).
 Qed.
 
-Lemma item_of_explicit_sp : forall f sp T0 acc c num indef k raw allow v pre,
+Lemma item_of_explicit_sp : forall f sp T0 W d acc c num indef k raw allow v ls pre,
   shape (Cons c num indef [k] raw) -> fitsn (S f) (Cons c num indef [k] raw) ->
   (allow = true -> eoc_start raw = false) ->
-  sp_ok sp T0 -> keys (tagset_of' T0) = pre ++ keys (mkTag c true num :: acc) -> pre <> [] -> c <> Univ -> is_dv v ->
+  sp_ok sp T0 W d -> In ls (leaves T0) -> keys ls = pre ++ keys (mkTag c true num :: acc) -> pre <> [] -> c <> Univ -> is_dv v ->
   consumes (dec_call BER (S f) sp (mkTag c true num :: acc) None indef false) (node_raw k) v ->
   consumes (dec_call BER (S (S f)) sp acc None allow false) raw v.
 Proof.
-  intros f sp T0 acc c num indef k raw allow v pre Hsh [Hmax Hf] Heoc Hsp Hk Hpre Hcls Hdv Hin.
+  intros f sp T0 W d acc c num indef k raw allow v ls pre Hsh [Hmax Hf] Heoc Hsp Hls Hk Hpre Hcls Hdv Hin.
   destruct (shape_split _ Hsh) as (ib & lb & Hi & Hl & Eraw).
   cbn [node_raw node_wire node_len node_body] in *. rewrite Eraw in *.
   assert (Ekr: kids_raw [k] = node_raw k) by (unfold kids_raw; cbn [map concat]; apply app_nil_r).
@@ -1160,7 +1203,7 @@ Proof.
   apply (call_consumes (S f) sp acc allow false ib lb (mkTag c true num) _ _ v Hi Hl).
   - rewrite !app_length in Hf. lia.
   - intros Ha. apply (eoc_start_prefix _ (node_raw k ++ (if indef then [0; 0] else []))); [apply (hdr_len2 _ _ _ _ Hi Hl)|apply Heoc; exact Ha].
-  - rewrite (so_explicit sp T0 Hsp _ _ _ _ _ pre Hk Hpre eq_refl Hcls). unfold disp_explicit.
+  - rewrite (so_explicit sp T0 W d Hsp _ _ _ _ _ ls pre Hls Hk Hpre eq_refl Hcls). unfold disp_explicit.
     destruct indef.
     + intros s tl Hav. rewrite <- app_assoc in Hav.
       destruct (Hin s ([0; 0] ++ tl) Hav) as (s1 & Hrun & Hp1 & Ha1 & Hc1).
@@ -1788,27 +1831,35 @@ Definition latin1 (n: N) : bool := existsb (N.eqb n) [20; 21; 25; 27; 7].
 Definition ascii_str (n: N) : bool := existsb (N.eqb n) [18; 19; 22; 26; 24; 23; 12].
 Definition non_univ (t: tag) : bool := negb (cls_eqb (tcls t) Univ).
 
-(* every simple type but REAL (character strings: those whose repertoire is all octets, so that the
-   library has no reason of its own to refuse), SEQUENCE OF, SET OF, SEQUENCE (mandatory, OPTIONAL, DEFAULT components; in every run of OPTIONAL/DEFAULT
-   components up to the next mandatory one the outermost tags are distinct),
-   SET of components with distinct outermost tags (mandatory, OPTIONAL or DEFAULT), IMPLICIT and EXPLICIT tagging of any class but UNIVERSAL and any number, nested to any depth *)
+(* the outermost (class, number) pairs an encoding of T can begin with, as the reference's may_start sees them *)
+Definition okeys (T: ty) : list (tclass * N) := match first_tags T with Some l => l | None => [] end.
 Definition outer_key (T: ty) : tclass * N := match first_tags T with Some [k] => k | _ => (Univ, 0) end.
 Fixpoint nodupb (l: list (tclass * N)) : bool :=
   match l with [] => true | x :: r => negb (existsb (tag_pair_eqb x) r) && nodupb r end.
+(* an untagged ANY cannot be told by its tag *)
+Definition mapable (T: ty) : bool := match T with TAny => false | _ => true end.
 
+(* THE FRAGMENT: every simple type (character strings: the latin-1 and the ASCII repertoires), SEQUENCE OF,
+   SET OF, SEQUENCE (mandatory, OPTIONAL, DEFAULT components; in every run of OPTIONAL/DEFAULT components up
+   to the next mandatory one the outermost tags are distinct; an untagged ANY only among mandatory
+   components only), SET (components with distinct outermost tags, no untagged ANY), CHOICE (alternatives
+   with distinct outermost tags, no untagged ANY), ANY, IMPLICIT tagging of anything that has a tag of its
+   own, EXPLICIT tagging of anything, of any class but UNIVERSAL and any number, nested to any depth *)
 Fixpoint frag (T: ty) : bool :=
   match T with
-  | TBool | TInt | TEnum | TBits | TOcts | TNull | TOid | TReal => true
+  | TBool | TInt | TEnum | TBits | TOcts | TNull | TOid | TReal | TAny => true
   | TStr n => latin1 n || ascii_str n
   | TSeqOf t | TSetOf t => frag t
   | TSeq fs => forallb (fun f => frag (snd f)) fs
-                && forallb (fun idx => nodupb (map outer_key (ambiguous_run (skipn idx fs)))) (seq 0 (length fs))
-  | TSet fs => forallb (fun f => frag (snd f)) fs && nodupb (map (fun f => outer_key (snd f)) fs)
-  | TImp t x | TExp t x => non_univ t && frag x
-  | TChoice _ | TAny => false
+                && (forallb (fun f => is_req (fst f)) fs || forallb (fun f => mapable (snd f)) fs)
+                && forallb (fun idx => nodupb (flat_map okeys (ambiguous_run (skipn idx fs)))) (seq 0 (length fs))
+  | TSet fs => forallb (fun f => frag (snd f) && mapable (snd f)) fs && nodupb (flat_map (fun f => okeys (snd f)) fs)
+  | TChoice alts => forallb (fun a => frag a && mapable a) alts && nodupb (flat_map okeys alts)
+  | TImp t x => non_univ t && headed x && frag x
+  | TExp t x => non_univ t && frag x
   end.
 
-(* the marked (class, number) pairs under which a BIT STRING / a REAL can appear in an encoding of T *)
+(* the marked (class, number) pairs under which a REAL / an ASCII string can appear in an encoding of T *)
 Fixpoint side_keys (T: ty) (e: option (tclass * N)) : list mkey :=
   match T with
   | TReal => [(KR, orkey e (Univ, 9))]
@@ -1821,14 +1872,28 @@ Fixpoint side_keys (T: ty) (e: option (tclass * N)) : list mkey :=
   | _ => []
   end.
 
-Lemma frag_facts : forall T, frag T = true -> wf_tags T = true /\ tagged_base T = true.
+Lemma frag_facts : forall T, frag T = true -> wf_tags T = true /\ impl_ok T = true.
 Proof.
   induction T as [| | | | | | | | n|fs IH|fs IH|t IH|t IH|alts IH| |tg x IH|tg x IH] using ty_ind'; intros H;
-    try discriminate H; try (split; reflexivity).
+    try (split; reflexivity).
+  - cbn [frag] in H. apply andb_true_iff in H. destruct H as [Hn Hx]. apply andb_true_iff in Hn. destruct Hn as [Hn Hh].
+    destruct (IH Hx) as [Hw Hb].
+    cbn [wf_tags impl_ok]. unfold non_univ in Hn. rewrite Hn, Hw, Hh, Hb. split; reflexivity.
   - cbn [frag] in H. apply andb_true_iff in H. destruct H as [Hn Hx]. destruct (IH Hx) as [Hw Hb].
-    cbn [wf_tags]. unfold non_univ in Hn. rewrite Hn, Hw. split; [reflexivity|exact Hb].
-  - cbn [frag] in H. apply andb_true_iff in H. destruct H as [Hn Hx]. destruct (IH Hx) as [Hw Hb].
-    cbn [wf_tags]. unfold non_univ in Hn. rewrite Hn, Hw. split; [reflexivity|exact Hb].
+    cbn [wf_tags impl_ok]. unfold non_univ in Hn. rewrite Hn, Hw. split; [reflexivity|exact Hb].
+Qed.
+
+Lemma frag_headed T : frag T = true -> mapable T = true -> not_choice T -> headed T = true.
+Proof.
+  intros Hf Hm Hc. destruct T; try reflexivity; try contradiction; try discriminate Hm.
+  cbn [frag] in Hf. apply andb_true_iff in Hf. destruct Hf as [Hf _]. apply andb_true_iff in Hf. destruct Hf as [_ Hh].
+  exact Hh.
+Qed.
+
+Lemma frag_keys T : frag T = true -> keys (tagset_of' T) = kets T None.
+Proof.
+  intros Hf. destruct (frag_facts T Hf) as [Hw Hi]. destruct (keys_kets T Hw Hi) as (ts & Hts & Hk & _).
+  rewrite (RoundTrip1.tagset_of'_ok T ts Hts). exact Hk.
 Qed.
 
 Lemma non_univ_cls t : non_univ t = true -> tcls t <> Univ.
@@ -1970,6 +2035,464 @@ Proof.
 Qed.
 
 (* ====================================================================== *)
+(* 6b. tag maps: of a CHOICE, of the components of a SET, of a run of OPTIONAL components *)
+(* ====================================================================== *)
+
+Definition lk (ls: tagset) : tclass * N := last (keys ls) (Univ, 0).
+Definition entries (fs: list ty) : list (tagset * ty) := flat_map (fun t => map (fun ls => (ls, t)) (leaves t)) fs.
+Definition tm_entries (T: ty) : list (tagset * ty) :=
+  match T with TChoice alts => entries alts | _ => [(tagset_of' T, T)] end.
+(* the tagMap property of the type is just these entries: nothing overridden, postponed, defaulted *)
+Definition tmok (T: ty) : Prop := tagmap_of T = mkTmap (tm_entries T) [] None false.
+
+Lemma map_fst_entries fs : map fst (entries fs) = flat_map leaves fs.
+Proof.
+  unfold entries. induction fs as [|t fs IH]; [reflexivity|]. cbn [flat_map]. rewrite map_app, IH. f_equal.
+  rewrite map_map. cbn [fst]. apply map_id.
+Qed.
+
+Lemma map_fst_tm_entries T : map fst (tm_entries T) = leaves T.
+Proof. destruct T; try reflexivity. cbn [tm_entries leaves]. apply map_fst_entries. Qed.
+
+Lemma NoDup_map_eq {A B} (g: A -> B) (l: list A) x y : NoDup (map g l) -> In x l -> In y l -> g x = g y -> x = y.
+Proof.
+  induction l as [|a l IH]; intros Hnd Hx Hy E; [contradiction|].
+  cbn [map] in Hnd. inversion Hnd as [|? ? Hnin Hnd']; subst.
+  destruct Hx as [->|Hx]; destruct Hy as [->|Hy]; try reflexivity.
+  - exfalso. apply Hnin. rewrite E. apply in_map. exact Hy.
+  - exfalso. apply Hnin. rewrite <- E. apply in_map. exact Hx.
+  - apply IH; assumption.
+Qed.
+
+Lemma lk_keys a b : keys a = keys b -> lk a = lk b.
+Proof. unfold lk. intros ->. reflexivity. Qed.
+
+(* association lists keyed by tag sets with pairwise different outermost tags *)
+Lemma assoc_nodup {X} : forall (E: list (tagset * X)) ls x ts, NoDup (map (fun e => lk (fst e)) E) ->
+  In (ls, x) E -> keys ts = keys ls -> assoc tagset_eqb ts E = Some x.
+Proof.
+  induction E as [|[ls0 x0] E IH]; intros ls x ts Hnd Hin Hk; [contradiction|].
+  cbn [assoc]. cbn [map fst] in Hnd. inversion Hnd as [|? ? Hnin Hnd']; subst.
+  destruct (tagset_eqb ts ls0) eqn:Eq.
+  - apply tagset_eqb_keys in Eq. destruct Hin as [Hin|Hin]; [congruence|].
+    exfalso. apply Hnin. replace (lk ls0) with (lk ls) by (apply lk_keys; congruence).
+    apply (in_map (fun e => lk (fst e)) E (ls, x) Hin).
+  - destruct Hin as [Hin|Hin].
+    + inversion Hin; subst. apply tagset_eqb_keys in Hk. rewrite Hk in Eq. discriminate Eq.
+    + apply (IH ls x ts Hnd' Hin Hk).
+Qed.
+
+Lemma assoc_none {X} : forall (E: list (tagset * X)) ts, (forall e, In e E -> keys ts <> keys (fst e)) ->
+  assoc tagset_eqb ts E = None.
+Proof.
+  induction E as [|[ls0 x0] E IH]; intros ts H; [reflexivity|]. cbn [assoc].
+  destruct (tagset_eqb ts ls0) eqn:Eq.
+  - apply tagset_eqb_keys in Eq. exfalso. apply (H (ls0, x0) (or_introl eq_refl) Eq).
+  - apply IH. intros e He. apply H. right. exact He.
+Qed.
+
+Lemma filter_id {X} : forall (E: list (tagset * X)) ts, (forall e, In e E -> keys (fst e) <> keys ts) ->
+  filter (fun e : tagset * X => negb (tagset_eqb (fst e) ts)) E = E.
+Proof.
+  induction E as [|[ls0 x0] E IH]; intros ts H; [reflexivity|]. cbn [filter fst].
+  destruct (tagset_eqb ls0 ts) eqn:Eq.
+  - apply tagset_eqb_keys in Eq. exfalso. apply (H (ls0, x0) (or_introl eq_refl) Eq).
+  - cbn [negb]. f_equal. apply IH. intros e He. apply H. right. exact He.
+Qed.
+
+Lemma last_app_ne {A} (a b: list A) d : b <> [] -> last (a ++ b) d = last b d.
+Proof.
+  intros Hb. induction a as [|x a IH]; [reflexivity|]. cbn [app]. destruct (a ++ b) eqn:E.
+  - apply app_eq_nil in E. destruct E as [_ E]. congruence.
+  - exact IH.
+Qed.
+
+(* a key that is a proper outer part of an entry's key is not itself an entry's key *)
+Lemma assoc_outer_none {X} (E: list (tagset * X)) ls x t acc pre : NoDup (map (fun e => lk (fst e)) E) ->
+  In (ls, x) E -> keys ls = pre ++ keys (t :: acc) -> pre <> [] -> assoc tagset_eqb (t :: acc) E = None.
+Proof.
+  intros Hnd Hin Hk Hpre. apply assoc_none. intros e He Eq.
+  assert (El: lk (fst e) = lk ls).
+  { unfold lk. rewrite <- Eq, Hk. symmetry. apply last_app_ne. discriminate. }
+  assert (Ee: e = (ls, x)) by (apply (NoDup_map_eq (fun e => lk (fst e)) E e (ls, x) Hnd He Hin El)).
+  subst e. cbn [fst] in Eq. rewrite Hk in Eq. apply Hpre.
+  apply (f_equal (@length _)) in Eq. rewrite app_length in Eq. destruct pre; [reflexivity|cbn [length] in Eq; lia].
+Qed.
+
+Lemma NoDup_app_l {A} (a b: list A) : NoDup (a ++ b) -> NoDup a.
+Proof.
+  induction a as [|x a IH]; intros H; [constructor|]. cbn [app] in H. inversion H as [|? ? Hn Hr]; subst.
+  constructor; [intros Hi; apply Hn; apply in_or_app; left; exact Hi|apply IH; exact Hr].
+Qed.
+
+Lemma NoDup_app_disj {A} (a b: list A) : NoDup (a ++ b) -> forall x, In x a -> In x b -> False.
+Proof.
+  induction a as [|y a IH]; intros H x Ha Hb; [contradiction|]. cbn [app] in H. inversion H as [|? ? Hn Hr]; subst.
+  destruct Ha as [->|Ha]; [apply Hn; apply in_or_app; right; exact Hb|apply (IH Hr x Ha Hb)].
+Qed.
+
+(* merging the tag maps of component types *)
+Lemma fold_entries T : forall (kts: list (tagset * ty)) (P: list (tagset * ty)),
+  NoDup (map lk (map fst P ++ map fst kts)) ->
+  fold_left (fun p kt => filter (fun e : tagset * ty => negb (tagset_eqb (fst e) (fst kt))) p ++ [(fst kt, T)]) kts P
+  = P ++ map (fun kt => (fst kt, T)) kts.
+Proof.
+  induction kts as [|kt kts IH]; intros P Hnd; [cbn; rewrite app_nil_r; reflexivity|].
+  cbn [fold_left map]. rewrite (filter_id P (fst kt)).
+  - rewrite (IH (P ++ [(fst kt, T)])).
+    + rewrite <- app_assoc. reflexivity.
+    + rewrite (map_app fst P). cbn [map fst]. rewrite <- app_assoc. exact Hnd.
+  - intros e He Eq. cbn [map] in Hnd. rewrite map_app in Hnd. cbn [map] in Hnd.
+    apply NoDup_remove_2 in Hnd. apply Hnd. apply in_or_app. left.
+    replace (lk (fst kt)) with (lk (fst e)) by (apply lk_keys; exact Eq). apply in_map. apply in_map. exact He.
+Qed.
+
+Lemma dup_none (kts P: list (tagset * ty)) : NoDup (map lk (map fst P ++ map fst kts)) ->
+  existsb (fun kt => match tm_find (fst kt) P with Some _ => true | None => false end) kts = false.
+Proof.
+  intros Hnd. destruct (existsb _ kts) eqn:E; [|reflexivity]. exfalso.
+  apply existsb_exists in E. destruct E as (kt & Hkt & Hf).
+  destruct (tm_find (fst kt) P) as [x|] eqn:Ef; [|discriminate Hf].
+  unfold tm_find in Ef.
+  assert (Hex: exists e, In e P /\ keys (fst kt) = keys (fst e)).
+  { clear -Ef. induction P as [|[l0 x0] P IH]; [discriminate Ef|]. cbn [assoc] in Ef.
+    destruct (tagset_eqb (fst kt) l0) eqn:Eq.
+    - exists (l0, x0). split; [left; reflexivity|apply tagset_eqb_keys; exact Eq].
+    - destruct (IH Ef) as (e & He & Hk). exists e. split; [right; exact He|exact Hk]. }
+  destruct Hex as (e & He & Hk).
+  rewrite map_app in Hnd. apply in_split in Hkt. destruct Hkt as (k1 & k2 & ->).
+  rewrite !map_app in Hnd. cbn [map] in Hnd. rewrite app_assoc in Hnd. apply NoDup_remove_2 in Hnd. apply Hnd.
+  apply in_or_app. left. apply in_or_app. left.
+  replace (lk (fst kt)) with (lk (fst e)) by (apply lk_keys; symmetry; exact Hk). apply in_map. apply in_map. exact He.
+Qed.
+
+Lemma combine_maps_entries unique : forall fs done,
+  (forall t, In t fs -> tmok t) -> NoDup (map lk (flat_map leaves (done ++ fs))) ->
+  combine_maps unique (map (fun t => (tagmap_of t, t)) fs) (mkTmap (entries done) [] None false)
+  = mkTmap (entries (done ++ fs)) [] None false.
+Proof.
+  induction fs as [|t fs IH]; intros done Hok Hnd.
+  - rewrite app_nil_r. reflexivity.
+  - cbn [map combine_maps]. rewrite (Hok t (or_introl eq_refl)).
+    cbn [tm_present tm_skip tm_default tm_postponed app].
+    assert (Hnd1: NoDup (map lk (map fst (entries done) ++ map fst (tm_entries t)))).
+    { rewrite map_fst_entries, map_fst_tm_entries. rewrite flat_map_app in Hnd. cbn [flat_map] in Hnd.
+      rewrite app_assoc, map_app in Hnd. apply NoDup_app_l in Hnd. exact Hnd. }
+    rewrite (fold_entries t (tm_entries t) (entries done) Hnd1). rewrite (dup_none _ _ Hnd1).
+    rewrite !orb_false_r, andb_false_r. cbn [orb].
+    replace (entries done ++ map (fun kt => (fst kt, t)) (tm_entries t)) with (entries (done ++ [t])).
+    + rewrite (IH (done ++ [t])); rewrite <- ?app_assoc; [reflexivity| |exact Hnd].
+      intros t' Ht'. apply Hok. right. exact Ht'.
+    + unfold entries. rewrite flat_map_app. cbn [flat_map]. rewrite app_nil_r. f_equal.
+      rewrite <- (map_fst_tm_entries t). rewrite map_map. reflexivity.
+Qed.
+
+Lemma fields_tagmap_entries unique fs : (forall t, In t fs -> tmok t) -> NoDup (map lk (flat_map leaves fs)) ->
+  fields_tagmap unique fs = mkTmap (entries fs) [] None false.
+Proof. intros Hok Hnd. unfold fields_tagmap, empty_tmap. apply (combine_maps_entries unique fs [] Hok Hnd). Qed.
+
+Lemma choice_go_map alts :
+  (fix go (l: list ty) : list (tmap * ty) := match l with [] => [] | a :: r => (tagmap_of a, a) :: go r end) alts
+  = map (fun t => (tagmap_of t, t)) alts.
+Proof. induction alts as [|a r IH]; [reflexivity|]. cbn [map]. rewrite <- IH. reflexivity. Qed.
+
+Lemma tmok_choice alts : (forall t, In t alts -> tmok t) -> NoDup (map lk (flat_map leaves alts)) -> tmok (TChoice alts).
+Proof.
+  intros Hok Hnd. unfold tmok. cbn [tagmap_of tm_entries]. rewrite choice_go_map.
+  apply (combine_maps_entries true alts [] Hok Hnd).
+Qed.
+
+(* the reference's first_tags are the outermost keys of the leaves *)
+Lemma kets_some_last : forall T k, exists pre, kets T (Some k) = pre ++ [k].
+Proof.
+  induction T as [| | | | | | | | n|fs IH|fs IH|t IH|t IH|alts IH| |tg x IH|tg x IH] using ty_ind'; intros k;
+    try (exists []; reflexivity).
+  - cbn [kets orkey]. apply IH.
+  - cbn [kets orkey]. exists (kets x None). reflexivity.
+Qed.
+
+Lemma nodupb_NoDup : forall l, nodupb l = true -> NoDup l.
+Proof.
+  induction l as [|x r IH]; intros H; [constructor|].
+  cbn [nodupb] in H. apply andb_true_iff in H. destruct H as [H1 H2]. constructor; [|apply IH; exact H2].
+  intros Hin. apply negb_true_iff in H1. assert (E: existsb (tag_pair_eqb x) r = true); [|congruence].
+  apply existsb_exists. exists x. split; [exact Hin|]. unfold tag_pair_eqb. rewrite !N.eqb_refl. reflexivity.
+Qed.
+
+Lemma choice_first_tags alts :
+  first_tags (TChoice alts) =
+  (fix go (alts: list ty) : option (list (tclass * N)) :=
+     match alts with
+     | [] => Some []
+     | a :: r => match first_tags a, go r with Some x, Some y => Some (x ++ y) | _, _ => None end
+     end) alts.
+Proof. reflexivity. Qed.
+
+Lemma ft_leaves : forall T, frag T = true -> mapable T = true -> first_tags T = Some (map lk (leaves T)).
+Proof.
+  induction T as [| | | | | | | | n|fs IH|fs IH|t IH|t IH|alts IH| |tg x IH|tg x IH] using ty_ind'; intros Hf Hm;
+    try reflexivity; try discriminate Hm.
+  - (* CHOICE *)
+    cbn [frag] in Hf. apply andb_true_iff in Hf. destruct Hf as [Hf _].
+    rewrite choice_first_tags. cbn [leaves]. clear Hm. revert Hf.
+    induction IH as [|a alts Ha _ IHa]; intros Hf; [reflexivity|].
+    cbn [forallb] in Hf. apply andb_true_iff in Hf. destruct Hf as [H1 H2]. apply andb_true_iff in H1. destruct H1 as [H1a H1b].
+    rewrite (Ha H1a H1b). cbn [flat_map]. rewrite (IHa H2). rewrite map_app. reflexivity.
+  - (* TImp *)
+    cbn [first_tags leaves]. f_equal. cbn [map]. f_equal. unfold lk. rewrite (frag_keys _ Hf). cbn [kets orkey].
+    destruct (kets_some_last x (key tg)) as (pre & ->). rewrite last_app_ne by discriminate. reflexivity.
+  - (* TExp *)
+    cbn [first_tags leaves]. f_equal. cbn [map]. f_equal. unfold lk. rewrite (frag_keys _ Hf). cbn [kets orkey].
+    rewrite last_app_ne by discriminate. reflexivity.
+Qed.
+
+Lemma okeys_leaves T : frag T = true -> mapable T = true -> okeys T = map lk (leaves T).
+Proof. intros Hf Hm. unfold okeys. rewrite (ft_leaves T Hf Hm). reflexivity. Qed.
+
+Lemma nodup_leaves : forall fs, forallb (fun t => frag t && mapable t) fs = true -> nodupb (flat_map okeys fs) = true ->
+  NoDup (map lk (flat_map leaves fs)).
+Proof.
+  intros fs Hf Hnd. apply nodupb_NoDup in Hnd.
+  replace (map lk (flat_map leaves fs)) with (flat_map okeys fs); [exact Hnd|]. clear Hnd.
+  induction fs as [|t fs IH]; [reflexivity|].
+  cbn [forallb] in Hf. apply andb_true_iff in Hf. destruct Hf as [H1 H2]. apply andb_true_iff in H1. destruct H1 as [Ha Hb].
+  cbn [flat_map]. rewrite map_app, (okeys_leaves t Ha Hb), (IH H2). reflexivity.
+Qed.
+
+(* every type of the fragment that can go into a tag map has the expected tagMap *)
+Lemma tmok_frag : forall T, frag T = true -> mapable T = true -> tmok T /\ NoDup (map lk (leaves T)).
+Proof.
+  induction T as [| | | | | | | | n|fs IH|fs IH|t IH|t IH|alts IH| |tg x IH|tg x IH] using ty_ind'; intros Hf Hm;
+    try discriminate Hm; try (split; [reflexivity|repeat constructor; intros []]).
+  cbn [frag] in Hf. apply andb_true_iff in Hf. destruct Hf as [Hf Hnd].
+  pose proof (nodup_leaves alts Hf Hnd) as HND. split; [|exact HND].
+  apply tmok_choice; [|exact HND].
+  intros t Ht. rewrite Forall_forall in IH. rewrite forallb_forall in Hf. specialize (Hf t Ht).
+  apply andb_true_iff in Hf. destruct Hf as [Ha Hb]. apply (IH t Ht Ha Hb).
+Qed.
+
+Lemma leaves_not_choice T : not_choice T -> leaves T = [tagset_of' T].
+Proof. destruct T; intros H; try reflexivity; contradiction. Qed.
+
+Lemma leaves_nonempty : forall T, frag T = true -> mapable T = true -> Forall (fun ls => ls <> []) (leaves T).
+Proof.
+  induction T as [| | | | | | | | n|fs IH|fs IH|t IH|t IH|alts IH| |tg x IH|tg x IH] using ty_ind'; intros Hf Hm;
+    try discriminate Hm; try (repeat constructor; discriminate).
+  - cbn [frag] in Hf. apply andb_true_iff in Hf. destruct Hf as [Hf _]. cbn [leaves].
+    apply Forall_forall. intros ls Hls. apply in_flat_map in Hls. destruct Hls as (a & Ha & Hls).
+    rewrite Forall_forall in IH. rewrite forallb_forall in Hf. specialize (Hf a Ha).
+    apply andb_true_iff in Hf. destruct Hf as [H1 H2]. specialize (IH a Ha H1 H2). rewrite Forall_forall in IH. apply (IH ls Hls).
+  - constructor; [|constructor]. intros E. cbn [leaves] in E.
+    pose proof (frag_keys _ Hf) as Hk. rewrite E in Hk. cbn [kets orkey] in Hk.
+    destruct (kets_some_last x (key tg)) as (pre & Ep). rewrite Ep in Hk. destruct pre; discriminate Hk.
+  - constructor; [|constructor]. intros E. cbn [leaves] in E.
+    pose proof (frag_keys _ Hf) as Hk. rewrite E in Hk. cbn [kets orkey] in Hk. destruct (kets x None); discriminate Hk.
+Qed.
+
+(* ---------- the specs ---------- *)
+
+Lemma in_entries fs T0 ls : In T0 fs -> In ls (leaves T0) -> In (ls, T0) (entries fs).
+Proof. intros H1 H2. unfold entries. apply in_flat_map. exists T0. split; [exact H1|]. apply in_map_iff. exists ls. split; [reflexivity|exact H2]. Qed.
+
+Lemma keys_in_leaves ts T0 : In (keys ts) (map keys (leaves T0)) -> exists ls, In ls (leaves T0) /\ keys ts = keys ls.
+Proof. intros H. apply in_map_iff in H. destruct H as (ls & E & Hl). exists ls. split; [exact Hl|symmetry; exact E]. Qed.
+
+(* a type as the spec *)
+Lemma sp_ok_sty T0 : tmok T0 -> NoDup (map lk (leaves T0)) -> sp_ok (STy T0) T0 (DV T0) 0.
+Proof.
+  intros Htm Hnd.
+  assert (HndE: NoDup (map (fun e : tagset * ty => lk (fst e)) (tm_entries T0))).
+  { rewrite <- (map_map fst lk), map_fst_tm_entries. exact Hnd. }
+  split.
+  - intros f ts len cd fl body v Hin Hby _ _ Hlen Hval. rewrite Nat.add_0_r.
+    destruct (keys_in_leaves _ _ Hin) as (ls & Hls & Hk).
+    assert (Hex: exists x, In (ls, x) (tm_entries T0)).
+    { rewrite <- map_fst_tm_entries in Hls. apply in_map_iff in Hls. destruct Hls as ([l0 x0] & E & Hi). cbn in E. subst l0. exists x0. exact Hi. }
+    destruct Hex as (x & Hx).
+    assert (Hd: dispatch BER (dec_call BER f) f (STy T0) ts len false = disp_value (dec_call BER f) f cd fl T0 ts len false).
+    { unfold dispatch, tm_contains. rewrite Htm. cbn [tm_present tm_default tm_postponed]. unfold tm_find.
+      rewrite (assoc_nodup _ ls x ts HndE Hx Hk). rewrite orb_true_r. rewrite Hby. destruct len; reflexivity. }
+    rewrite Hd. apply disp_value_consumes; assumption.
+  - intros rec f t acc len ls pre Hls Hk Hpre Hcon Hcls.
+    assert (Hex: exists x, In (ls, x) (tm_entries T0)).
+    { rewrite <- map_fst_tm_entries in Hls. apply in_map_iff in Hls. destruct Hls as ([l0 x0] & E & Hi). cbn in E. subst l0. exists x0. exact Hi. }
+    destruct Hex as (x & Hx).
+    assert (Hmis: tagset_eqb (t :: acc) (tagset_of' T0) = false).
+    { destruct (tagset_eqb (t :: acc) (tagset_of' T0)) eqn:E; [|reflexivity]. exfalso. apply tagset_eqb_keys in E.
+      destruct T0; try (cbn [leaves] in Hls; destruct Hls as [<-|[]]; rewrite Hk in E; apply Hpre;
+                        apply (f_equal (@length _)) in E; rewrite app_length in E; destruct pre; [reflexivity|cbn [length] in E; lia]).
+      cbn in E. discriminate E. }
+    unfold dispatch, tm_contains. rewrite Hmis, Htm. cbn [tm_present tm_default tm_postponed orb]. unfold tm_find.
+    rewrite (assoc_outer_none _ ls x t acc pre HndE Hx Hk Hpre). rewrite Hcon. cbn [andb].
+    destruct (tcls t); try congruence; destruct len; reflexivity.
+  - intros v. exact I.
+  - intros ->. repeat split.
+Qed.
+
+Lemma tmok_not_any : ~ tmok TAny.
+Proof. unfold tmok. cbn. intros H. discriminate H. Qed.
+
+Lemma sp_ok_sty_any : sp_ok (STy TAny) TAny (DV TAny) 0.
+Proof.
+  split.
+  - intros f ts len cd fl body v Hin Hby _ _ Hlen Hval. rewrite Nat.add_0_r.
+    cbn [leaves map] in Hin. destruct Hin as [Hin|[]]. destruct ts; [|discriminate Hin].
+    assert (Hd: dispatch BER (dec_call BER f) f (STy TAny) [] len false = disp_value (dec_call BER f) f cd fl TAny [] len false).
+    { unfold dispatch. change (tagset_eqb [] (tagset_of' TAny)) with true. cbn [orb]. change (tm_postponed (tagmap_of TAny)) with false.
+      cbv iota. rewrite Hby. destruct len; reflexivity. }
+    rewrite Hd. apply disp_value_consumes; assumption.
+  - intros rec f t acc len ls pre Hls Hk. cbn [leaves] in Hls. destruct Hls as [<-|[]]. destruct pre; discriminate Hk.
+  - intros v. exact I.
+  - intros _. repeat split.
+Qed.
+
+(* a tag map of components as the spec: resolves to the component whose tags are read *)
+Lemma sp_ok_map unique fs T0 : (forall t, In t fs -> tmok t) -> NoDup (map lk (flat_map leaves fs)) -> In T0 fs ->
+  sp_ok (SMap (fields_tagmap unique fs)) T0 (DV T0) 0.
+Proof.
+  intros Hok Hnd Hin. rewrite (fields_tagmap_entries unique fs Hok Hnd).
+  assert (HndE: NoDup (map (fun e : tagset * ty => lk (fst e)) (entries fs))).
+  { rewrite <- (map_map fst lk), map_fst_entries. exact Hnd. }
+  split.
+  - intros f ts len cd fl body v Hi Hby _ _ Hlen Hval. rewrite Nat.add_0_r.
+    destruct (keys_in_leaves _ _ Hi) as (ls & Hls & Hk).
+    assert (Hd: dispatch BER (dec_call BER f) f (SMap (mkTmap (entries fs) [] None false)) ts len false
+                = disp_value (dec_call BER f) f cd fl T0 ts len false).
+    { unfold dispatch, tm_get. cbn [tm_postponed tm_present tm_default]. unfold tm_find.
+      rewrite (assoc_nodup _ ls T0 ts HndE (in_entries fs T0 ls Hin Hls) Hk). cbn [lift pbind]. rewrite Hby. destruct len; reflexivity. }
+    rewrite Hd. apply disp_value_consumes; assumption.
+  - intros rec f t acc len ls pre Hls Hk Hpre Hcon Hcls.
+    unfold dispatch, tm_get. cbn [tm_postponed tm_present tm_default]. unfold tm_find.
+    rewrite (assoc_outer_none _ ls T0 t acc pre HndE (in_entries fs T0 ls Hin Hls) Hk Hpre).
+    cbn [lift pbind]. rewrite Hcon. cbn [andb]. destruct (tcls t); try congruence; destruct len; reflexivity.
+  - intros v. exact I.
+  - intros ->. exfalso. apply tmok_not_any. apply (Hok TAny Hin).
+Qed.
+
+(* positions by type *)
+Fixpoint numbered (i: nat) (fs: list ty) : list (tagset * nat) :=
+  match fs with [] => [] | t :: r => map (fun ls => (ls, i)) (leaves t) ++ numbered (S i) r end.
+
+Lemma numbered_app : forall a b i, numbered i (a ++ b) = numbered i a ++ numbered (i + length a) b.
+Proof.
+  induction a as [|t a IH]; intros b i; [cbn; rewrite Nat.add_0_r; reflexivity|].
+  cbn [app numbered length]. rewrite IH, <- app_assoc. replace (S i + length a)%nat with (i + S (length a))%nat by lia. reflexivity.
+Qed.
+
+Lemma map_fst_numbered : forall fs i, map fst (numbered i fs) = flat_map leaves fs.
+Proof.
+  induction fs as [|t fs IH]; intros i; [reflexivity|]. cbn [numbered flat_map]. rewrite map_app, IH. f_equal.
+  rewrite map_map. cbn [fst]. apply map_id.
+Qed.
+
+Lemma in_numbered : forall fs i j T0 ls, nth_error fs j = Some T0 -> In ls (leaves T0) -> In (ls, (i + j)%nat) (numbered i fs).
+Proof.
+  induction fs as [|t fs IH]; intros i j T0 ls Hn Hl; [destruct j; discriminate Hn|].
+  cbn [numbered]. apply in_or_app. destruct j as [|j].
+  - cbn in Hn. inversion Hn; subst. left. rewrite Nat.add_0_r. apply in_map_iff. exists ls. split; [reflexivity|exact Hl].
+  - right. cbn [nth_error] in Hn. replace (i + S j)%nat with (S i + j)%nat by lia. apply (IH (S i) j T0 ls Hn Hl).
+Qed.
+
+Lemma tag_to_pos_numbered : forall fs done,
+  (forall t, In t fs -> tmok t) -> NoDup (map lk (flat_map leaves (done ++ fs))) ->
+  tag_to_pos fs (length done) (numbered 0 done) = Some (numbered 0 (done ++ fs)).
+Proof.
+  induction fs as [|t fs IH]; intros done Hok Hnd.
+  - rewrite app_nil_r. reflexivity.
+  - cbn [tag_to_pos]. rewrite (Hok t (or_introl eq_refl)). cbn [tm_postponed tm_present].
+    rewrite map_fst_tm_entries.
+    assert (Hno: existsb (fun k => match assoc tagset_eqb k (numbered 0 done) with Some _ => true | None => false end) (leaves t) = false).
+    { destruct (existsb _ (leaves t)) eqn:E; [|reflexivity]. exfalso. apply existsb_exists in E. destruct E as (ls & Hls & Hf).
+      rewrite (assoc_none (numbered 0 done) ls) in Hf; [discriminate Hf|].
+      intros e He Eq. rewrite flat_map_app in Hnd. cbn [flat_map] in Hnd. rewrite !map_app in Hnd.
+      rewrite app_assoc in Hnd. apply NoDup_app_l in Hnd.
+      apply (NoDup_app_disj _ _ Hnd (lk ls)); [|apply in_map; exact Hls].
+      replace (lk ls) with (lk (fst e)) by (apply lk_keys; symmetry; exact Eq).
+      rewrite <- (map_fst_numbered done 0). apply in_map. apply in_map. exact He. }
+    rewrite Hno.
+    replace (numbered 0 done ++ map (fun k => (k, length done)) (leaves t)) with (numbered 0 (done ++ [t]))
+      by (rewrite numbered_app; cbn [numbered Nat.add]; rewrite app_nil_r; reflexivity).
+    replace (S (length done)) with (length (done ++ [t])) by (rewrite app_length; cbn [length]; lia).
+    rewrite (IH (done ++ [t])); rewrite <- ?app_assoc; [reflexivity| |exact Hnd].
+    intros t' Ht'. apply Hok. right. exact Ht'.
+Qed.
+
+Lemma position_leaf fs T0 j ls : (forall t, In t fs -> tmok t) -> NoDup (map lk (flat_map leaves fs)) ->
+  nth_error fs j = Some T0 -> In ls (leaves T0) -> position_by_type fs ls = Ok j.
+Proof.
+  intros Hok Hnd Hn Hls. unfold position_by_type.
+  change (tag_to_pos fs 0 []) with (tag_to_pos fs (length (@nil ty)) (numbered 0 [])).
+  rewrite (tag_to_pos_numbered fs [] Hok Hnd). cbn [app].
+  rewrite (assoc_nodup (numbered 0 fs) ls j ls); [reflexivity| |apply (in_numbered fs 0 j T0 ls Hn Hls)|reflexivity].
+  rewrite <- (map_map fst lk), map_fst_numbered. exact Hnd.
+Qed.
+
+(* ---------- a spec that resolves to an untagged CHOICE resolves to its alternatives ---------- *)
+
+Lemma consumes_mark (k: proc dval) b v : consumes k b v -> consumes (Mark k) b v.
+Proof.
+  intros H s tl Hav. cbn [resume]. destruct (H (setmark s (pos s)) tl Hav) as (s' & Hr & Hp & Ha & Hc).
+  exists s'. repeat split; assumption.
+Qed.
+
+Lemma consumes_bind_pure (p: proc dval) (k: dval -> proc dval) b v1 v2 :
+  consumes p b v1 -> k v1 = Ret v2 -> consumes (pbind p k) b v2.
+Proof.
+  intros H Hk s tl Hav. destruct (H s tl Hav) as (s' & Hr & Hp & Ha & Hc).
+  rewrite (resume_pbind_done _ _ _ _ _ Hr), Hk. cbn [resume]. exists s'. repeat split; assumption.
+Qed.
+
+Lemma sp_ok_alt sp alts W d j a :
+  sp_ok sp (TChoice alts) W d -> nth_error alts j = Some a ->
+  (forall t, In t alts -> tmok t) -> NoDup (map lk (flat_map leaves alts)) -> Forall (fun ls => ls <> []) (leaves a) ->
+  sp_ok sp a (fun v => W (VChoice j v)) (S d).
+Proof.
+  intros Hsp Hn Hok Hnd Hne. pose proof (nth_error_In _ _ Hn) as Hin.
+  pose proof (sp_ok_map true alts a Hok Hnd Hin) as Hmap.
+  split.
+  - intros f ts len cd fl body v Hi Hby Hets Hcd Hlen Hval.
+    replace (f + S d)%nat with (S f + d)%nat by lia.
+    destruct (keys_in_leaves _ _ Hi) as (ls & Hls & Hk).
+    assert (Hts: tagset_eqb [] ts = false).
+    { destruct ts; [|reflexivity]. rewrite Forall_forall in Hne. specialize (Hne ls Hls). destruct ls; [congruence|discriminate Hk]. }
+    apply (so_match sp (TChoice alts) W d Hsp (S f) ts len DcChoice (mkDecFlags true (Some KChoice)) body (VChoice j v)).
+    + cbn [leaves]. apply in_map_iff. exists ls. split; [symmetry; exact Hk|]. apply in_flat_map. exists a. split; assumption.
+    + reflexivity.
+    + apply (ets_choice alts j a v Hn Hets).
+    + cbn [cdv]. rewrite (nth_error_nth alts j TNull Hn). lia.
+    + exact Hlen.
+    + cbn [dec_value base_of]. unfold dec_choice. change (tagset_of' (TChoice alts)) with (@nil tag). rewrite Hts.
+      assert (Hinner: forall len', len' = len ->
+                consumes (dec_call BER (S f) (SMap (fields_tagmap true alts)) ts (Some len') false false) body (DV a v)).
+      { intros len' ->. cbn [dec_call]. unfold dec_body. cbn [andb]. apply consumes_mark.
+        pose proof (so_match _ a (DV a) 0%nat Hmap f ts len cd fl body v Hi Hby Hets Hcd Hlen Hval) as H0.
+        rewrite Nat.add_0_r in H0. exact H0. }
+      assert (Hplace: choice_place (S f) (TChoice alts) alts (DV a v) = Ret (DV (TChoice alts) (VChoice j v))).
+      { unfold choice_place.
+        rewrite (position_leaf alts a j (effective_tagset (S (S f)) a v) Hok Hnd Hn); [reflexivity|].
+        apply Hets. lia. }
+      destruct len as [l|].
+      * apply (consumes_bind_pure _ _ body (DV a v)); [apply Hinner; reflexivity|exact Hplace].
+      * cbn [choice_loop]. apply (consumes_bind_pure _ _ body (DV a v)); [apply Hinner; reflexivity|].
+        rewrite Hplace. reflexivity.
+  - intros rec f t acc len ls pre Hls Hk Hpre Hcon Hcls.
+    apply (so_explicit sp (TChoice alts) W d Hsp rec f t acc len ls pre); try assumption.
+    cbn [leaves]. apply in_flat_map. exists a. split; assumption.
+  - intros v. apply (so_dv sp _ W d Hsp).
+  - intros ->. exfalso. apply tmok_not_any. apply (Hok TAny Hin).
+Qed.
+
+(* a type of the fragment as the spec *)
+Lemma sp_sty t : frag t = true -> sp_ok (STy t) t (DV t) 0.
+Proof.
+  intros Hf. destruct (mapable t) eqn:Hm.
+  - destruct (tmok_frag t Hf Hm) as [H1 H2]. apply (sp_ok_sty t H1 H2).
+  - destruct t; try discriminate Hm. apply sp_ok_sty_any.
+Qed.
+
+
+
+(* ====================================================================== *)
 (* 7. one item of each base type                                            *)
 (* ====================================================================== *)
 
@@ -1977,17 +2500,21 @@ Lemma by_type_base' T : by_type BER T = by_type BER (base_of T).
 Proof. apply RoundTrip1.by_type_base. Qed.
 
 (* the tags read complete the tag set: hand over to the value decoder of the base type *)
-Lemma base_item : forall sp T0 acc e u n f allow cd fl v,
-  sp_ok sp T0 -> tagged_base T0 = true -> by_type BER (base_of T0) = Some (cd, fl) ->
+Lemma base_item : forall sp T0 W d acc e u n f allow cd fl v,
+  sp_ok sp T0 W d -> by_type BER (base_of T0) = Some (cd, fl) ->
   keys (tagset_of' T0) = [orkey e u] ++ keys acc -> same_tag (orkey e u) n = true ->
   nok f n -> (allow = true -> eoc_start (node_raw n) = false) ->
-  consumes (dec_value (dec_call BER f) f cd fl (Some T0) (node_wire n :: acc) (node_len n) false) (node_body n) v ->
-  consumes (dec_call BER (S f) sp acc None allow false) (node_raw n) v.
+  consumes (dec_value (dec_call BER f) f cd fl (Some T0) (node_wire n :: acc) (node_len n) false) (node_body n) (DV T0 v) ->
+  consumes (dec_call BER (S (f + d)) sp acc None allow false) (node_raw n) (W v).
 Proof.
-  intros sp T0 acc e u n f allow cd fl v Hsp Htb Hby Hkeys Hsame (Hsh & Ho & Hfit) Heoc Hval.
-  apply (item_of_value_sp f sp T0 acc n allow false v cd fl Hsh Hfit Heoc Hsp).
-  - cbn [keys map]. fold (keys acc). rewrite (same_tag_key _ _ Hsame), Hkeys. reflexivity.
+  intros sp T0 W d acc e u n f allow cd fl v Hsp Hby Hkeys Hsame (Hsh & Ho & Hfit) Heoc Hval.
+  assert (Hnc: not_choice T0) by (destruct T0; try exact I; discriminate Hkeys).
+  destruct (ets_plain T0 v Hnc) as [Hets Hcd].
+  apply (item_of_value_sp f sp T0 W d acc n allow v cd fl Hsh Hfit Heoc Hsp).
+  - rewrite (leaves_not_choice T0 Hnc). left. cbn [keys map]. fold (keys acc). rewrite (same_tag_key _ _ Hsame), Hkeys. reflexivity.
   - rewrite by_type_base'. exact Hby.
+  - exact Hets.
+  - rewrite Hcd. lia.
   - exact Hval.
 Qed.
 
@@ -2000,21 +2527,61 @@ Lemma abs_base T v : abs T v = abs (base_of T) v. Proof. apply abs_wrappers. Qed
 
 (* what the induction over the type establishes: T is the part of the guiding type T0 still to be
    matched against node n, acc the tags read at the EXPLICIT levels above, e the (class, number) an
-   IMPLICIT tag above substitutes for T's own outermost tag *)
-Definition item_ok (T: ty) : Prop := forall sp T0 acc e n a f allow L,
-  sp_ok sp T0 -> tagged_base T0 = true -> base_of T0 = base_of T ->
-  keys (tagset_of' T0) = kets T e ++ keys acc -> e_ok e ->
-  nok f n -> (allow = true -> eoc_start (node_raw n) = false) ->
+   IMPLICIT tag above substitutes for T's own outermost tag;
+   sp: the spec in force, which resolves to T0 (sp_ok), wrapping T0's value by W and costing d levels of
+   fuel; h: a bound on the octets of n; f: the fuel left for the value decoder *)
+(* where we stand: e legitimate; a type without a tag of its own (CHOICE, ANY) is only met as the whole T0 *)
+Definition pos_ok (T T0: ty) (acc: tagset) (e: option (tclass * N)) : Prop :=
+  e_ok e /\ (headed T = false -> T0 = T /\ acc = []).
+
+Definition item_ok0 (T: ty) : Prop := forall sp T0 W d acc e n a h f allow L,
+  sp_ok sp T0 W d -> base_of T0 = base_of T ->
+  keys (tagset_of' T0) = kets T e ++ keys acc -> pos_ok T T0 acc e ->
+  nok h n -> (h + ty_depth T <= f)%nat -> (allow = true -> eoc_start (node_raw n) = false) ->
   safe L n = true -> (forall k, In k (side_keys T e) -> memk k L = true) ->
   interp T e n = Some a ->
-  exists v, consumes (dec_call BER (S f) sp acc None allow false) (node_raw n) (DV T0 v) /\ abs T v = a.
+  exists v, consumes (dec_call BER (S (f + d)) sp acc None allow false) (node_raw n) (W v) /\ abs T v = a.
 
-Lemma item_bool : item_ok TBool.
+(* the same, and the effective tag set of the value is one of T0's (needed where values are placed by type) *)
+Definition item_ok (T: ty) : Prop := forall sp T0 W d acc e n a h f allow L,
+  sp_ok sp T0 W d -> base_of T0 = base_of T ->
+  keys (tagset_of' T0) = kets T e ++ keys acc -> pos_ok T T0 acc e ->
+  nok h n -> (h + ty_depth T <= f)%nat -> (allow = true -> eoc_start (node_raw n) = false) ->
+  safe L n = true -> (forall k, In k (side_keys T e) -> memk k L = true) ->
+  interp T e n = Some a ->
+  exists v, consumes (dec_call BER (S (f + d)) sp acc None allow false) (node_raw n) (W v) /\ abs T v = a
+            /\ ets_ok T0 v /\ (cdv T0 v <= ty_depth T0)%nat.
+
+Lemma item_up T : (forall e, kets T e <> []) -> item_ok0 T -> item_ok T.
 Proof.
-  intros sp T0 acc e n a f allow L Hsp Htb Hbase Hkeys He Hok Heoc Hsafe HL Hint.
+  intros Hne H sp T0 W d acc e n a h f allow L Hsp Hbase Hkeys He Hokh Hfuel Heoc Hsafe HL Hint.
+  destruct (H sp T0 W d acc e n a h f allow L Hsp Hbase Hkeys He Hokh Hfuel Heoc Hsafe HL Hint) as (v & Hc & Ha).
+  assert (Hnc: not_choice T0).
+  { destruct T0; try exact I. cbn in Hkeys. specialize (Hne e). destruct (kets T e); [congruence|discriminate Hkeys]. }
+  destruct (ets_plain T0 v Hnc) as [H1 H2]. exists v. split; [exact Hc|]. split; [exact Ha|]. split; [exact H1|rewrite H2; lia].
+Qed.
+
+(* one member of a constructed node: decoded under a spec of its own *)
+Lemma kid_item t sp (i: bool) h' f' L k a : item_ok t -> frag t = true -> sp_ok sp t (DV t) 0 ->
+  (forall k0, In k0 (side_keys t None) -> memk k0 L = true) ->
+  nok h' k -> (h' + ty_depth t <= S f')%nat -> (i = true -> eoc_start (node_raw k) = false) -> safe L k = true ->
+  interp t None k = Some a ->
+  exists v, consumes (dec_call BER (S (S f')) sp [] None i false) (node_raw k) (DV t v) /\ abs t v = a
+            /\ ets_ok t v /\ (cdv t v <= ty_depth t)%nat.
+Proof.
+  intros IH Hfr Hsp HL Hnk Hfu Hke Hs Hint.
+  assert (Hkeys: keys (tagset_of' t) = kets t None ++ keys []) by (rewrite (frag_keys t Hfr), app_nil_r; reflexivity).
+  destruct (IH sp t (DV t) 0%nat [] None k a h' (S f') i L Hsp eq_refl Hkeys (conj I (fun _ => conj eq_refl eq_refl)) Hnk Hfu Hke Hs HL Hint) as (v & Hc & Ha & He).
+  rewrite Nat.add_0_r in Hc. exists v. split; [exact Hc|]. split; [exact Ha|exact He].
+Qed.
+
+Lemma item_bool : item_ok0 TBool.
+Proof.
+  intros sp T0 W d acc e n a h f allow L Hsp Hbase Hkeys He Hokh Hfuel Heoc Hsafe HL Hint.
+  pose proof (nok_mono h f n Hokh ltac:(lia)) as Hok.
   destruct (interp_bool _ _ _ Hint) as (c & num & o & raw & -> & Hsame & ->).
   exists (VBool (negb (Z.eqb (from_bytes_signed [o]) 0))). split.
-  - apply (base_item sp T0 acc e (Univ, 1) _ f allow DcBoolBer (mkDecFlags true (Some KBool)) _ Hsp Htb); try assumption.
+  - apply (base_item sp T0 W d acc e (Univ, 1) _ f allow DcBoolBer (mkDecFlags true (Some KBool)) _ Hsp); try assumption.
     + rewrite Hbase. reflexivity.
     + cbn [dec_value node_len node_body node_wire]. destruct Hok as (Hsh & Ho & Hfit).
       apply consumes_boolean; [reflexivity|apply (fits_of_body f _ Hfit Hsh)|exact Hbase].
@@ -2022,12 +2589,13 @@ Proof.
     pose proof (octs_body _ Hsh Ho) as Hb. cbn [node_body] in Hb. apply octs_cons in Hb. tauto.
 Qed.
 
-Lemma item_int : item_ok TInt.
+Lemma item_int : item_ok0 TInt.
 Proof.
-  intros sp T0 acc e n a f allow L Hsp Htb Hbase Hkeys He Hok Heoc Hsafe HL Hint.
+  intros sp T0 W d acc e n a h f allow L Hsp Hbase Hkeys He Hokh Hfuel Heoc Hsafe HL Hint.
+  pose proof (nok_mono h f n Hokh ltac:(lia)) as Hok.
   destruct (interp_int _ _ _ Hint) as (c & num & o & cs & raw & -> & Hsame & ->).
   exists (VInt (from_bytes_signed (o :: cs))). destruct Hok as (Hsh & Ho & Hfit). split.
-  - apply (base_item sp T0 acc e (Univ, 2) _ f allow DcInt (mkDecFlags true (Some KInt)) _ Hsp Htb); try assumption.
+  - apply (base_item sp T0 W d acc e (Univ, 2) _ f allow DcInt (mkDecFlags true (Some KInt)) _ Hsp); try assumption.
     + rewrite Hbase. reflexivity.
     + split; [exact Hsh|split; assumption].
     + cbn [dec_value node_len node_body node_wire df_proto].
@@ -2035,12 +2603,13 @@ Proof.
   - cbn [abs]. f_equal. symmetry. apply signed_value_is_from_bytes. apply octs_forallb. apply (octs_body _ Hsh Ho).
 Qed.
 
-Lemma item_enum : item_ok TEnum.
+Lemma item_enum : item_ok0 TEnum.
 Proof.
-  intros sp T0 acc e n a f allow L Hsp Htb Hbase Hkeys He Hok Heoc Hsafe HL Hint.
+  intros sp T0 W d acc e n a h f allow L Hsp Hbase Hkeys He Hokh Hfuel Heoc Hsafe HL Hint.
+  pose proof (nok_mono h f n Hokh ltac:(lia)) as Hok.
   destruct (interp_enum _ _ _ Hint) as (c & num & o & cs & raw & -> & Hsame & ->).
   exists (VInt (from_bytes_signed (o :: cs))). destruct Hok as (Hsh & Ho & Hfit). split.
-  - apply (base_item sp T0 acc e (Univ, 10) _ f allow DcInt (mkDecFlags true (Some KInt)) _ Hsp Htb); try assumption.
+  - apply (base_item sp T0 W d acc e (Univ, 10) _ f allow DcInt (mkDecFlags true (Some KInt)) _ Hsp); try assumption.
     + rewrite Hbase. reflexivity.
     + split; [exact Hsh|split; assumption].
     + cbn [dec_value node_len node_body node_wire df_proto].
@@ -2048,23 +2617,25 @@ Proof.
   - cbn [abs]. f_equal. symmetry. apply signed_value_is_from_bytes. apply octs_forallb. apply (octs_body _ Hsh Ho).
 Qed.
 
-Lemma item_null : item_ok TNull.
+Lemma item_null : item_ok0 TNull.
 Proof.
-  intros sp T0 acc e n a f allow L Hsp Htb Hbase Hkeys He Hok Heoc Hsafe HL Hint.
+  intros sp T0 W d acc e n a h f allow L Hsp Hbase Hkeys He Hokh Hfuel Heoc Hsafe HL Hint.
+  pose proof (nok_mono h f n Hokh ltac:(lia)) as Hok.
   destruct (interp_null _ _ _ Hint) as (c & num & raw & -> & Hsame & ->).
   exists VNull. split; [|reflexivity].
-  apply (base_item sp T0 acc e (Univ, 5) _ f allow DcNull (mkDecFlags true (Some KNull)) _ Hsp Htb); try assumption.
+  apply (base_item sp T0 W d acc e (Univ, 5) _ f allow DcNull (mkDecFlags true (Some KNull)) _ Hsp); try assumption.
   - rewrite Hbase. reflexivity.
   - cbn [dec_value node_len node_body node_wire length]. change (N.of_nat 0) with 0.
     apply consumes_null; [reflexivity|rewrite Hbase; exact I].
 Qed.
 
-Lemma item_oid : item_ok TOid.
+Lemma item_oid : item_ok0 TOid.
 Proof.
-  intros sp T0 acc e n a f allow L Hsp Htb Hbase Hkeys He Hok Heoc Hsafe HL Hint.
+  intros sp T0 W d acc e n a h f allow L Hsp Hbase Hkeys He Hokh Hfuel Heoc Hsafe HL Hint.
+  pose proof (nok_mono h f n Hokh ltac:(lia)) as Hok.
   destruct (interp_oid _ _ _ Hint) as (c & num & cs & raw & arcs & -> & Hsame & Hoid & ->).
   exists (VOid arcs). split; [|reflexivity]. destruct Hok as (Hsh & Ho & Hfit).
-  apply (base_item sp T0 acc e (Univ, 6) _ f allow DcOid (mkDecFlags true (Some KOid)) _ Hsp Htb); try assumption.
+  apply (base_item sp T0 W d acc e (Univ, 6) _ f allow DcOid (mkDecFlags true (Some KOid)) _ Hsp); try assumption.
   - rewrite Hbase. reflexivity.
   - split; [exact Hsh|split; assumption].
   - cbn [dec_value node_len node_body node_wire].
@@ -2111,12 +2682,13 @@ Proof.
       apply (octets_def_value (S (S f')) T0 (proto_str T0) fl (mkTag c true num :: acc) false (fun b => b = concat l) (fun b Hb => eq_ind_r (fun x => create (Some T0) (proto_str T0) _ (VOcts x) = Ret (DV T0 (VOcts x))) (Hcreate _) Hb) Hfl _ _ eq_refl HF); [lia|reflexivity].
 Qed.
 
-Lemma item_octs : item_ok TOcts.
+Lemma item_octs : item_ok0 TOcts.
 Proof.
-  intros sp T0 acc e n a f allow L Hsp Htb Hbase Hkeys He Hok Heoc Hsafe HL Hint.
+  intros sp T0 W d acc e n a h f allow L Hsp Hbase Hkeys He Hokh Hfuel Heoc Hsafe HL Hint.
+  pose proof (nok_mono h f n Hokh ltac:(lia)) as Hok.
   destruct (interp_octs _ _ _ Hint) as (bs & Hsame & Hseg & ->).
   exists (VOcts bs). split; [|reflexivity].
-  apply (base_item sp T0 acc e (Univ, 4) _ f allow DcOcts (mkDecFlags true (Some KOcts)) _ Hsp Htb); try assumption.
+  apply (base_item sp T0 W d acc e (Univ, 4) _ f allow DcOcts (mkDecFlags true (Some KOcts)) _ Hsp); try assumption.
   - rewrite Hbase. reflexivity.
   - apply (string_value f T0 DcOcts _ acc n (S (length (node_raw n))) bs (or_introl eq_refl)); [|reflexivity|exact Hok|exact Hseg].
     intros ts. unfold proto_str, create. rewrite Hbase. reflexivity.
@@ -2175,12 +2747,13 @@ Proof.
   - apply andb_true_iff in Hs. tauto.
 Qed.
 
-Lemma item_str u : (latin1 u || ascii_str u)%bool = true -> item_ok (TStr u).
+Lemma item_str u : (latin1 u || ascii_str u)%bool = true -> item_ok0 (TStr u).
 Proof.
-  intros Hu sp T0 acc e n a f allow L Hsp Htb Hbase Hkeys He Hok Heoc Hsafe HL Hint.
+  intros Hu sp T0 W d acc e n a h f allow L Hsp Hbase Hkeys He Hokh Hfuel Heoc Hsafe HL Hint.
+  pose proof (nok_mono h f n Hokh ltac:(lia)) as Hok.
   destruct (interp_str _ _ _ _ Hint) as (bs & Hsame & Hseg & ->).
   exists (VOcts bs). split; [|reflexivity].
-  apply (base_item sp T0 acc e (Univ, u) _ f allow DcStr (mkDecFlags true (Some (KStr u))) _ Hsp Htb); try assumption.
+  apply (base_item sp T0 W d acc e (Univ, u) _ f allow DcStr (mkDecFlags true (Some (KStr u))) _ Hsp); try assumption.
   - rewrite Hbase. apply orb_true_iff in Hu. destruct Hu as [Hu|Hu]; [apply by_type_latin1|apply by_type_ascii]; exact Hu.
   - apply (string_value f T0 DcStr _ acc n (S (length (node_raw n))) bs (or_intror eq_refl)); [|reflexivity|exact Hok|exact Hseg].
     intros ts. unfold proto_str, create. rewrite Hbase. cbn [base_of].
@@ -2194,12 +2767,13 @@ Qed.
 
 (* ---------- BIT STRING under the guiding type's own tags ---------- *)
 
-Lemma item_bits : item_ok TBits.
+Lemma item_bits : item_ok0 TBits.
 Proof.
-  intros sp T0 acc e n a f allow L Hsp Htb Hbase Hkeys He Hok Heoc Hsafe HL Hint.
+  intros sp T0 W d acc e n a h f allow L Hsp Hbase Hkeys He Hokh Hfuel Heoc Hsafe HL Hint.
+  pose proof (nok_mono h f n Hokh ltac:(lia)) as Hok.
   destruct (interp_bits _ _ _ Hint) as (l & bs & Hsame & Hseg & Hjoin & ->).
   exists (VBits bs). split; [|reflexivity].
-  apply (base_item sp T0 acc e (Univ, 3) _ f allow DcBits (mkDecFlags true (Some KBits)) _ Hsp Htb); try assumption.
+  apply (base_item sp T0 W d acc e (Univ, 3) _ f allow DcBits (mkDecFlags true (Some KBits)) _ Hsp); try assumption.
   - rewrite Hbase. reflexivity.
   - destruct n as [c num contents raw|c num indef kids raw]; cbn [as_univ] in Hseg.
     + destruct (bit_segments_inv _ _ _ Hseg) as [(u & c0 & raw0 & E & Hu & ->)|(i & kids & raw0 & ls & fuel' & E & _)]; [|discriminate E].
@@ -2212,7 +2786,7 @@ Proof.
       destruct (join_concat _ _ Hjoin) as (bss & HJ & ->).
       assert (HF: Forall2 (bseg (dec_call BER (S (S f'))) indef) (map node_raw kids) bss).
       { pose proof (opt_all_Forall2 _ _ _ Hall) as H1.
-        clear Hseg Hall Hjoin Hok Heoc Hsafe Hcnt Hint Hsame.
+        clear Hseg Hall Hjoin Hok Hokh Hfuel Heoc Hsafe Hcnt Hint Hsame.
         revert bss HJ. induction H1 as [|k lk kids ls Hk H1 IH1]; intros bss HJ.
         - inversion HJ. constructor.
         - inversion HJ as [|? bk ? bss' Hjk HJ']; subst.
@@ -2233,20 +2807,23 @@ Qed.
 Lemma abs_imp t x v : abs (TImp t x) v = abs x v. Proof. destruct v; reflexivity. Qed.
 Lemma abs_exp t x v : abs (TExp t x) v = abs x v. Proof. destruct v; reflexivity. Qed.
 
-Lemma item_imp t x : non_univ t = true -> item_ok x -> item_ok (TImp t x).
+Lemma item_imp t x : non_univ t = true -> headed x = true -> item_ok x -> item_ok (TImp t x).
 Proof.
-  intros Ht IH sp T0 acc e n a f allow L Hsp Htb Hbase Hkeys He Hok Heoc Hsafe HL Hint.
-  rewrite interp_imp in Hint.
-  destruct (IH sp T0 acc (Some (orkey e (key t))) n a f allow L Hsp Htb Hbase Hkeys) as (v & Hc & Ha); try assumption.
-  - destruct e as [k0|]; [exact He|]. cbn [orkey e_ok key fst]. apply non_univ_cls. exact Ht.
-  - exists v. split; [exact Hc|]. rewrite abs_imp. exact Ha.
+  intros Ht Hhd IH sp T0 W d acc e n a h f allow L Hsp Hbase Hkeys [He _] Hokh Hfuel Heoc Hsafe HL Hint.
+  rewrite interp_imp in Hint. cbn [ty_depth] in Hfuel.
+  destruct (IH sp T0 W d acc (Some (orkey e (key t))) n a h f allow L Hsp Hbase Hkeys) as (v & Hc & Ha & Hets); try assumption.
+  - split; [|intros Hh; congruence].
+    destruct e as [k0|]; [exact He|]. cbn [orkey e_ok key fst]. apply non_univ_cls. exact Ht.
+  - lia.
+  - exists v. split; [exact Hc|]. split; [rewrite abs_imp; exact Ha|exact Hets].
 Qed.
 
-Lemma item_exp t x : non_univ t = true -> item_ok x -> item_ok (TExp t x).
+Lemma item_exp t x : non_univ t = true -> headed x = true -> item_ok x -> item_ok (TExp t x).
 Proof.
-  intros Ht IH sp T0 acc e n a f allow L Hsp Htb Hbase Hkeys He Hok Heoc Hsafe HL Hint.
+  intros Ht Hhd IH sp T0 W d acc e n a h f allow L Hsp Hbase Hkeys [He _] Hokh Hfuel Heoc Hsafe HL Hint.
   destruct (interp_exp _ _ _ _ _ Hint) as (c & num & i & k & raw & -> & Hsame & Hint').
-  destruct (nok_kids _ _ _ _ _ _ Hok) as (f' & -> & Hcnt & Hkids).
+  destruct (nok_kids _ _ _ _ _ _ Hokh) as (h' & -> & Hcnt & Hkids). cbn [ty_depth] in Hfuel.
+  destruct f as [|f1]; [lia|].
   inversion Hkids as [|? ? (Hnk & Hke & Hkl) _]; subst.
   pose proof (safe_kids _ _ _ _ _ _ Hsafe) as Hsk. inversion Hsk as [|? ? Hsk1 _]; subst.
   pose proof (same_tag_key _ _ Hsame) as Hkey. unfold key in Hkey at 1. cbn [node_wire tcls tnum] in Hkey.
@@ -2257,12 +2834,17 @@ Proof.
   cbn [kets] in Hkeys.
   assert (Hkeys': keys (tagset_of' T0) = kets x None ++ keys (mkTag c true num :: acc)).
   { rewrite Hkeys, <- app_assoc. cbn [keys map app]. unfold key at 2. cbn [tcls tnum]. rewrite Hkey. reflexivity. }
-  destruct (IH sp T0 (mkTag c true num :: acc) None k a (S f') i L Hsp Htb Hbase Hkeys' I
-              (nok_mono _ _ _ Hnk (Nat.le_succ_diag_r f')) Hke Hsk1 HL Hint') as (v & Hcons & Ha).
-  exists v. split; [|rewrite abs_exp; exact Ha].
-  destruct Hok as (Hsh & Ho & Hfit).
-  apply (item_of_explicit_sp (S f') sp T0 acc c num i k raw allow (DV T0 v) (kets x None) Hsh Hfit Heoc Hsp Hkeys'
-           (kets_nonempty x None) Hc I Hcons).
+  assert (Hpo: pos_ok x T0 (mkTag c true num :: acc) None) by (split; [exact I|intros Hh; congruence]).
+  destruct (IH sp T0 W d (mkTag c true num :: acc) None k a h' f1 i L Hsp Hbase Hkeys' Hpo Hnk ltac:(lia) Hke Hsk1 HL Hint')
+    as (v & Hcons & Ha & Hets).
+  exists v. split; [|split; [rewrite abs_exp; exact Ha|exact Hets]].
+  pose proof (nok_mono _ (S (f1 + d)) _ Hokh ltac:(lia)) as (Hsh & Ho & Hfit).
+  assert (Hnc: not_choice T0).
+  { destruct T0; try exact I. cbn in Hkeys'. destruct (kets x None); discriminate Hkeys'. }
+  cbn [Nat.add].
+  apply (item_of_explicit_sp (f1 + d) sp T0 W d acc c num i k raw allow (W v) (tagset_of' T0) (kets x None) Hsh Hfit Heoc Hsp);
+    [rewrite (leaves_not_choice T0 Hnc); left; reflexivity|exact Hkeys'|apply (kets_nonempty x None Hhd)|exact Hc
+    |apply (so_dv sp T0 W d Hsp)|exact Hcons].
 Qed.
 
 (* ---------- SEQUENCE OF / SET OF ---------- *)
@@ -2288,51 +2870,54 @@ Proof.
   - rewrite app_nil_r. apply (RoundTrip2.dec_listof_consumes (dec_call BER (S f')) (S f') T0 t _ _ HF Hlen).
 Qed.
 
-Lemma kids_elems t (i: bool) f' L : item_ok t -> frag t = true ->
-  (forall k, In k (side_keys t None) -> memk k L = true) ->
+Lemma kids_elems t (i: bool) h' f' L : item_ok t -> frag t = true ->
+  (forall k, In k (side_keys t None) -> memk k L = true) -> (h' + ty_depth t <= S f')%nat ->
   forall kids l,
-  Forall (fun k => nok f' k /\ (i = true -> eoc_start (node_raw k) = false) /\ (0 < length (node_raw k))%nat) kids ->
+  Forall (fun k => nok h' k /\ (i = true -> eoc_start (node_raw k) = false) /\ (0 < length (node_raw k))%nat) kids ->
   Forall (fun k => safe L k = true) kids ->
   Forall2 (fun k a => interp t None k = Some a) kids l ->
   exists xs, Forall2 (elem (dec_call BER (S (S f'))) t i) (map node_raw kids) xs /\ map (abs t) xs = l.
 Proof.
-  intros IH Hfr HL kids l Hkids Hsk HF.
-  destruct (frag_facts t Hfr) as [Hw Htb].
-  destruct (keys_kets t Hw Htb) as (ts & Hts & _ & Hk & _).
-  assert (Hkeys: keys (tagset_of' t) = kets t None ++ keys []).
-  { rewrite (RoundTrip1.tagset_of'_ok t ts Hts), Hk, app_nil_r. reflexivity. }
+  intros IH Hfr HL Hfu kids l Hkids Hsk HF.
   induction HF as [|k a kids l Hint HF IHF].
   - exists []. split; [constructor|reflexivity].
   - inversion Hkids as [|? ? (Hnk & Hke & Hkl) Hkr]; subst. inversion Hsk as [|? ? Hs1 Hsr]; subst.
     destruct (IHF Hkr Hsr) as (xs & HFx & Hmap).
-    destruct (IH (STy t) t [] None k a (S f') i L (sp_ok_sty t Htb) Htb eq_refl Hkeys I (nok_mono _ _ _ Hnk (Nat.le_succ_diag_r f')) Hke Hs1 HL Hint)
-      as (v & Hc & Ha).
+    destruct (kid_item t (STy t) i h' f' L k a IH Hfr (sp_sty t Hfr) HL Hnk Hfu Hke Hs1 Hint) as (v & Hc & Ha & _).
     exists (v :: xs). split; [|cbn [map]; rewrite Ha, Hmap; reflexivity].
     cbn [map]. constructor; [|exact HFx]. split; [exact Hc|exact Hkl].
 Qed.
 
-Lemma item_seqof t : frag t = true -> item_ok t -> item_ok (TSeqOf t).
+(* fuel of a constructed node against the bound on its octets *)
+Lemma fuel_kids h' D f : (S (S h') + S D <= f)%nat -> exists f', f = S (S f') /\ (h' + D <= f')%nat.
+Proof. intros H. destruct f as [|[|f']]; try lia. exists f'. split; [reflexivity|lia]. Qed.
+
+Lemma item_seqof t : frag t = true -> item_ok t -> item_ok0 (TSeqOf t).
 Proof.
-  intros Hfr IH sp T0 acc e n a f allow L Hsp Htb Hbase Hkeys He Hok Heoc Hsafe HL Hint.
+  intros Hfr IH sp T0 W d acc e n a h f allow L Hsp Hbase Hkeys He Hokh Hfuel Heoc Hsafe HL Hint.
   destruct (interp_seqof _ _ _ _ Hint) as (c & num & i & kids & raw & l & -> & Hsame & Hall & ->).
-  destruct (nok_kids _ _ _ _ _ _ Hok) as (f' & -> & Hcnt & Hkids).
-  destruct (kids_elems t i f' L IH Hfr HL kids l Hkids (safe_kids _ _ _ _ _ _ Hsafe) (opt_all_Forall2 _ _ _ Hall))
+  destruct (nok_kids _ _ _ _ _ _ Hokh) as (h' & -> & Hcnt & Hkids). cbn [ty_depth] in Hfuel.
+  destruct (fuel_kids h' (ty_depth t) f Hfuel) as (f' & -> & Hfu).
+  pose proof (nok_mono _ (S (S f')) _ Hokh ltac:(lia)) as Hok.
+  destruct (kids_elems t i h' f' L IH Hfr HL ltac:(lia) kids l Hkids (safe_kids _ _ _ _ _ _ Hsafe) (opt_all_Forall2 _ _ _ Hall))
     as (xs & HF & Hmap).
   exists (VList xs). split; [|cbn [abs]; rewrite Hmap; reflexivity].
-  apply (base_item sp T0 acc e (Univ, 16) _ (S (S f')) allow DcSeqOf (mkDecFlags true (Some KSeqOf)) _ Hsp Htb); try assumption.
+  apply (base_item sp T0 W d acc e (Univ, 16) _ (S (S f')) allow DcSeqOf (mkDecFlags true (Some KSeqOf)) _ Hsp); try assumption.
   - rewrite Hbase. reflexivity.
   - cbn [node_wire]. apply (listof_value (S f') T0 t DcSeqOf _ acc c num i kids raw xs (or_introl eq_refl) (or_introl Hbase) HF). lia.
 Qed.
 
-Lemma item_setof t : frag t = true -> item_ok t -> item_ok (TSetOf t).
+Lemma item_setof t : frag t = true -> item_ok t -> item_ok0 (TSetOf t).
 Proof.
-  intros Hfr IH sp T0 acc e n a f allow L Hsp Htb Hbase Hkeys He Hok Heoc Hsafe HL Hint.
+  intros Hfr IH sp T0 W d acc e n a h f allow L Hsp Hbase Hkeys He Hokh Hfuel Heoc Hsafe HL Hint.
   destruct (interp_setof _ _ _ _ Hint) as (c & num & i & kids & raw & l & -> & Hsame & Hall & ->).
-  destruct (nok_kids _ _ _ _ _ _ Hok) as (f' & -> & Hcnt & Hkids).
-  destruct (kids_elems t i f' L IH Hfr HL kids l Hkids (safe_kids _ _ _ _ _ _ Hsafe) (opt_all_Forall2 _ _ _ Hall))
+  destruct (nok_kids _ _ _ _ _ _ Hokh) as (h' & -> & Hcnt & Hkids). cbn [ty_depth] in Hfuel.
+  destruct (fuel_kids h' (ty_depth t) f Hfuel) as (f' & -> & Hfu).
+  pose proof (nok_mono _ (S (S f')) _ Hokh ltac:(lia)) as Hok.
+  destruct (kids_elems t i h' f' L IH Hfr HL ltac:(lia) kids l Hkids (safe_kids _ _ _ _ _ _ Hsafe) (opt_all_Forall2 _ _ _ Hall))
     as (xs & HF & Hmap).
   exists (VList xs). split; [|cbn [abs]; rewrite Hmap; reflexivity].
-  apply (base_item sp T0 acc e (Univ, 17) _ (S (S f')) allow DcSetOf (mkDecFlags true (Some KSetOf)) _ Hsp Htb); try assumption.
+  apply (base_item sp T0 W d acc e (Univ, 17) _ (S (S f')) allow DcSetOf (mkDecFlags true (Some KSetOf)) _ Hsp); try assumption.
   - rewrite Hbase. reflexivity.
   - cbn [node_wire]. apply (listof_value (S f') T0 t DcSetOf _ acc c num i kids raw xs (or_intror eq_refl) (or_intror Hbase) HF). lia.
 Qed.
@@ -2395,29 +2980,42 @@ Proof.
     destruct (IH kids r Hreq Er) as (az & -> & Hf). exists (a :: az). split; [reflexivity|constructor; assumption].
 Qed.
 
-Lemma fields_elems (i: bool) f' L : forall fs kids az,
+Definition fields_depth (fs: list (presence * ty)) : nat := fold_right (fun f acc => Nat.max (ty_depth (snd f)) acc) O fs.
+Definition alts_depth (alts: list ty) : nat := fold_right (fun a acc => Nat.max (ty_depth a) acc) O alts.
+
+Lemma fields_depth_in fs f0 : In f0 fs -> (ty_depth (snd f0) <= fields_depth fs)%nat.
+Proof.
+  induction fs as [|x fs IH]; intros H; [contradiction|]. cbn [fields_depth fold_right]. fold (fields_depth fs).
+  destruct H as [->|H]; [lia|]. specialize (IH H). lia.
+Qed.
+
+Lemma alts_depth_in alts a : In a alts -> (ty_depth a <= alts_depth alts)%nat.
+Proof.
+  induction alts as [|x alts IH]; intros H; [contradiction|]. cbn [alts_depth fold_right]. fold (alts_depth alts).
+  destruct H as [->|H]; [lia|]. specialize (IH H). lia.
+Qed.
+
+Lemma fields_elems (i: bool) h' f' L : forall fs kids az,
   Forall (fun f => item_ok (snd f)) fs -> forallb (fun f => frag (snd f)) fs = true ->
   (forall k, In k (flat_map (fun f => side_keys (snd f) None) fs) -> memk k L = true) ->
-  Forall (fun k => nok f' k /\ (i = true -> eoc_start (node_raw k) = false) /\ (0 < length (node_raw k))%nat) kids ->
+  (forall f0, In f0 fs -> (h' + ty_depth (snd f0) <= S f')%nat) ->
+  Forall (fun k => nok h' k /\ (i = true -> eoc_start (node_raw k) = false) /\ (0 < length (node_raw k))%nat) kids ->
   Forall (fun k => safe L k = true) kids ->
   fields_interp fs kids az ->
   exists xs, fields_mem (dec_call BER (S (S f'))) i fs (map node_raw kids) xs
              /\ RoundTrip2.abs_fields fs (map Some xs) = map Some az.
 Proof.
-  intros fs kids az HIH Hfr HL Hkids Hsk HF.
+  intros fs kids az HIH Hfr HL Hfu Hkids Hsk HF.
   induction HF as [|p ft fs k kids a az Hint HF IHF].
   - exists []. split; [constructor|reflexivity].
   - inversion HIH as [|? ? IH1 IHr]; subst. cbn [snd] in IH1.
     cbn [forallb snd] in Hfr. apply andb_true_iff in Hfr. destruct Hfr as [Hfr1 Hfrr].
     inversion Hkids as [|? ? (Hnk & Hke & Hkl) Hkr]; subst. inversion Hsk as [|? ? Hs1 Hsr]; subst.
     cbn [flat_map snd] in HL.
-    destruct (IHF IHr Hfrr (fun k0 Hk0 => HL k0 (in_or_app _ _ _ (or_intror Hk0))) Hkr Hsr) as (xs & HFx & Habs).
-    destruct (frag_facts ft Hfr1) as [Hw Htb].
-    destruct (keys_kets ft Hw Htb) as (ts & Hts & _ & Hk & _).
-    assert (Hkeys: keys (tagset_of' ft) = kets ft None ++ keys []).
-    { rewrite (RoundTrip1.tagset_of'_ok ft ts Hts), Hk, app_nil_r. reflexivity. }
-    destruct (IH1 (STy ft) ft [] None k a (S f') i L (sp_ok_sty ft Htb) Htb eq_refl Hkeys I (nok_mono _ _ _ Hnk (Nat.le_succ_diag_r f')) Hke Hs1
-                (fun k0 Hk0 => HL k0 (in_or_app _ _ _ (or_introl Hk0))) Hint) as (v & Hc & Ha).
+    destruct (IHF IHr Hfrr (fun k0 Hk0 => HL k0 (in_or_app _ _ _ (or_intror Hk0)))
+                (fun f0 Hf0 => Hfu f0 (or_intror Hf0)) Hkr Hsr) as (xs & HFx & Habs).
+    destruct (kid_item ft (STy ft) i h' f' L k a IH1 Hfr1 (sp_sty ft Hfr1)
+                (fun k0 Hk0 => HL k0 (in_or_app _ _ _ (or_introl Hk0))) Hnk (Hfu (p, ft) (or_introl eq_refl)) Hke Hs1 Hint) as (v & Hc & Ha & _).
     exists (v :: xs). split.
     + cbn [map]. constructor; [|exact HFx]. split; [exact Hc|exact Hkl].
     + cbn [map RoundTrip2.abs_fields]. fold RoundTrip2.abs_fields. rewrite Ha, Habs. reflexivity.
@@ -2445,9 +3043,9 @@ Proof.
 Qed.
 
 Lemma item_seq fs : forallb (fun f => is_req (fst f) && frag (snd f)) fs = true ->
-  Forall (fun f => item_ok (snd f)) fs -> item_ok (TSeq fs).
+  Forall (fun f => item_ok (snd f)) fs -> item_ok0 (TSeq fs).
 Proof.
-  intros Hfs IH sp T0 acc e n a f allow L Hsp Htb Hbase Hkeys He Hok Heoc Hsafe HL Hint.
+  intros Hfs IH sp T0 W d acc e n a h f allow L Hsp Hbase Hkeys He Hokh Hfuel Heoc Hsafe HL Hint.
   assert (Hreq: forallb (fun f => is_req (fst f)) fs = true /\ forallb (fun f => frag (snd f)) fs = true).
   { clear -Hfs. induction fs as [|x fs IHf]; [split; reflexivity|].
     cbn [forallb] in *. apply andb_true_iff in Hfs. destruct Hfs as [H1 H2]. apply andb_true_iff in H1. destruct H1 as [Ha Hb].
@@ -2455,235 +3053,19 @@ Proof.
   destruct Hreq as [Hreq Hfrs].
   destruct (interp_seq _ _ _ _ Hint) as (c & num & i & kids & raw & l & -> & Hsame & Hgo & ->).
   destruct (seq_go_req fs kids l Hreq Hgo) as (az & -> & Hfi).
-  destruct (nok_kids _ _ _ _ _ _ Hok) as (f' & -> & Hcnt & Hkids).
-  destruct (fields_elems i f' L fs kids az IH Hfrs HL Hkids (safe_kids _ _ _ _ _ _ Hsafe) Hfi) as (xs & HF & Habs).
+  destruct (nok_kids _ _ _ _ _ _ Hokh) as (h' & -> & Hcnt & Hkids).
+  change (ty_depth (TSeq fs)) with (S (fields_depth fs)) in Hfuel.
+  destruct (fuel_kids h' (fields_depth fs) f Hfuel) as (f' & -> & Hfu).
+  pose proof (nok_mono _ (S (S f')) _ Hokh ltac:(lia)) as Hok.
+  assert (Hfus: forall f0, In f0 fs -> (h' + ty_depth (snd f0) <= S f')%nat).
+  { intros f0 Hf0. pose proof (fields_depth_in fs f0 Hf0). lia. }
+  destruct (fields_elems i h' f' L fs kids az IH Hfrs HL Hfus
+              Hkids (safe_kids _ _ _ _ _ _ Hsafe) Hfi) as (xs & HF & Habs).
   exists (VRec (map Some xs)). split; [|rewrite RoundTrip2.abs_seq, Habs; reflexivity].
-  apply (base_item sp T0 acc e (Univ, 16) _ (S (S f')) allow DcSeq (mkDecFlags true (Some KSeq)) _ Hsp Htb); try assumption.
+  apply (base_item sp T0 W d acc e (Univ, 16) _ (S (S f')) allow DcSeq (mkDecFlags true (Some KSeq)) _ Hsp); try assumption.
   - rewrite Hbase. reflexivity.
   - cbn [node_wire]. apply (record_value (S f') T0 fs _ acc c num i kids raw xs Hbase Hreq HF).
     rewrite (fields_interp_length _ _ _ Hfi). lia.
-Qed.
-
-(* ====================================================================== *)
-(* 9. tag maps of component lists (SET, runs of OPTIONAL components)          *)
-(* ====================================================================== *)
-
-(* outer_key: the outermost (class, number) of a tagged type: what the reference's may_start looks at *)
-
-Lemma kets_some_last : forall T k, exists pre, kets T (Some k) = pre ++ [k].
-Proof.
-  induction T as [| | | | | | | | n|fs IH|fs IH|t IH|t IH|alts IH| |tg x IH|tg x IH] using ty_ind'; intros k;
-    try (exists []; reflexivity).
-  - cbn [kets orkey]. apply IH.
-  - cbn [kets orkey]. exists (kets x None). reflexivity.
-Qed.
-
-Lemma kets_outer : forall T, tagged_base T = true -> first_tags T = Some [outer_key T] /\ exists pre, kets T None = pre ++ [outer_key T].
-Proof.
-  intros T Htb. destruct T; try discriminate Htb; try (split; [reflexivity|exists []; reflexivity]).
-  - split; [reflexivity|]. cbn [kets orkey]. unfold outer_key. cbn [first_tags]. apply kets_some_last.
-  - split; [reflexivity|]. cbn [kets orkey]. unfold outer_key. cbn [first_tags]. exists (kets T None). reflexivity.
-Qed.
-
-Lemma may_start_outer T k : tagged_base T = true -> may_start T k = true -> k = outer_key T.
-Proof.
-  intros Htb H. unfold may_start in H. destruct (kets_outer T Htb) as [E _]. rewrite E in H.
-  cbn [existsb] in H. rewrite orb_false_r in H. apply tag_pair_eqb_eq in H. exact H.
-Qed.
-
-Lemma may_start_outer_iff T k : tagged_base T = true -> may_start T k = true <-> k = outer_key T.
-Proof.
-  intros Htb. split; [apply may_start_outer; exact Htb|]. intros ->. unfold may_start.
-  destruct (kets_outer T Htb) as [E _]. rewrite E. cbn [existsb]. unfold tag_pair_eqb. rewrite !N.eqb_refl. reflexivity.
-Qed.
-
-(* a component type of the fragment: tag set known, outermost key last *)
-Definition comp_ok (T: ty) : Prop := frag T = true.
-
-Lemma comp_keys T : comp_ok T -> exists pre, keys (tagset_of' T) = pre ++ [outer_key T] /\ keys (tagset_of' T) = kets T None.
-Proof.
-  intros Hfr. destruct (frag_facts T Hfr) as [Hw Htb]. destruct (keys_kets T Hw Htb) as (ts & Hts & _ & Hk & _).
-  rewrite (RoundTrip1.tagset_of'_ok T ts Hts), Hk. destruct (kets_outer T Htb) as [_ [pre E]]. exists pre. split; [exact E|reflexivity].
-Qed.
-
-Lemma last_key_eq (a b: list (tclass * N)) x y : a ++ [x] = b ++ [y] -> x = y.
-Proof. intros H. apply app_inj_tail in H. tauto. Qed.
-
-(* same keys, hence same outermost key *)
-Lemma same_keys_outer T T' : comp_ok T -> comp_ok T' -> keys (tagset_of' T) = keys (tagset_of' T') -> outer_key T = outer_key T'.
-Proof.
-  intros H1 H2 E. destruct (comp_keys T H1) as (p1 & E1 & _). destruct (comp_keys T' H2) as (p2 & E2 & _).
-  rewrite E1, E2 in E. apply (last_key_eq _ _ _ _ E).
-Qed.
-
-Definition entries (fs: list ty) : list (tagset * ty) := map (fun t => (tagset_of' t, t)) fs.
-
-Lemma NoDup_map_eq {A B} (g: A -> B) (l: list A) x y : NoDup (map g l) -> In x l -> In y l -> g x = g y -> x = y.
-Proof.
-  induction l as [|a l IH]; intros Hnd Hx Hy E; [contradiction|].
-  cbn [map] in Hnd. inversion Hnd as [|? ? Hnin Hnd']; subst.
-  destruct Hx as [->|Hx]; destruct Hy as [->|Hy]; try reflexivity.
-  - exfalso. apply Hnin. rewrite E. apply in_map. exact Hy.
-  - exfalso. apply Hnin. rewrite <- E. apply in_map. exact Hx.
-  - apply IH; assumption.
-Qed.
-
-(* lookup of a tag set in the entries of a component list with distinct outermost keys *)
-Lemma find_entry : forall fs ts T0, Forall comp_ok fs -> NoDup (map outer_key fs) -> In T0 fs ->
-  keys ts = keys (tagset_of' T0) -> tm_find ts (entries fs) = Some T0.
-Proof.
-  induction fs as [|t fs IH]; intros ts T0 Hok Hnd Hin Hk; [contradiction|].
-  unfold tm_find, entries. cbn [map assoc]. inversion Hok as [|? ? Ht Hokr]; subst.
-  destruct (tagset_eqb ts (tagset_of' t)) eqn:E.
-  - apply tagset_eqb_keys in E. f_equal.
-    assert (HT0: comp_ok T0) by (rewrite Forall_forall in Hok; apply Hok; exact Hin).
-    apply (NoDup_map_eq outer_key (t :: fs) t T0 Hnd (or_introl eq_refl) Hin).
-    apply (same_keys_outer t T0 Ht HT0). congruence.
-  - destruct Hin as [->|Hin].
-    + exfalso. apply tagset_eqb_keys in Hk. rewrite Hk in E. discriminate E.
-    + cbn [map] in Hnd. inversion Hnd; subst. apply (IH ts T0 Hokr); assumption.
-Qed.
-
-Lemma find_entry_none : forall fs ts, (forall t, In t fs -> keys ts <> keys (tagset_of' t)) -> tm_find ts (entries fs) = None.
-Proof.
-  induction fs as [|t fs IH]; intros ts H; [reflexivity|].
-  unfold tm_find, entries. cbn [map assoc].
-  destruct (tagset_eqb ts (tagset_of' t)) eqn:E.
-  - apply tagset_eqb_keys in E. exfalso. apply (H t (or_introl eq_refl) E).
-  - apply IH. intros t' Ht'. apply H. right. exact Ht'.
-Qed.
-
-(* the tag map computed for such a list is just its entries: nothing overridden, nothing postponed *)
-Lemma filter_entries_id fs ts : (forall t, In t fs -> keys (tagset_of' t) <> keys ts) ->
-  filter (fun e : tagset * ty => negb (tagset_eqb (fst e) ts)) (entries fs) = entries fs.
-Proof.
-  induction fs as [|t fs IH]; intros H; [reflexivity|].
-  unfold entries. cbn [map filter fst].
-  destruct (tagset_eqb (tagset_of' t) ts) eqn:E.
-  - apply tagset_eqb_keys in E. exfalso. apply (H t (or_introl eq_refl) E).
-  - cbn [negb]. f_equal. apply IH. intros t' Ht'. apply H. right. exact Ht'.
-Qed.
-
-Lemma comp_plain T : comp_ok T -> tagmap_of T = mkTmap [(tagset_of' T, T)] [] None false.
-Proof. intros H. apply (plain_of_tagged T). apply (frag_facts T H). Qed.
-
-Lemma distinct_keys_of_outer fs t : Forall comp_ok fs -> comp_ok t -> ~ In (outer_key t) (map outer_key fs) ->
-  forall t', In t' fs -> keys (tagset_of' t') <> keys (tagset_of' t).
-Proof.
-  intros Hok Ht Hnin t' Ht' E. apply Hnin. rewrite Forall_forall in Hok.
-  rewrite <- (same_keys_outer t' t (Hok t' Ht') Ht E). apply in_map. exact Ht'.
-Qed.
-
-Lemma combine_maps_entries unique : forall fs done,
-  Forall comp_ok (done ++ fs) -> NoDup (map outer_key (done ++ fs)) ->
-  combine_maps unique (map (fun t => (tagmap_of t, t)) fs) (mkTmap (entries done) [] None false)
-  = mkTmap (entries (done ++ fs)) [] None false.
-Proof.
-  induction fs as [|t fs IH]; intros done Hok Hnd.
-  - rewrite app_nil_r. reflexivity.
-  - cbn [map combine_maps].
-    assert (Ht: comp_ok t) by (rewrite Forall_forall in Hok; apply Hok; apply in_or_app; right; left; reflexivity).
-    assert (Hdone: Forall comp_ok done) by (apply Forall_app in Hok; tauto).
-    assert (Hnin: ~ In (outer_key t) (map outer_key done)).
-    { rewrite map_app in Hnd. cbn [map] in Hnd. apply NoDup_remove_2 in Hnd. intros Hc. apply Hnd. apply in_or_app. left. exact Hc. }
-    pose proof (distinct_keys_of_outer done t Hdone Ht Hnin) as Hdist.
-    rewrite (comp_plain t Ht). cbn [tm_present tm_skip tm_default tm_postponed fold_left fst existsb app].
-    rewrite (filter_entries_id done (tagset_of' t) Hdist).
-    rewrite (find_entry_none done (tagset_of' t)) by (intros t' Ht' E; apply (Hdist t' Ht'); symmetry; exact E).
-    rewrite !orb_false_r, andb_false_r.
-    replace (entries done ++ [(tagset_of' t, t)]) with (entries (done ++ [t])) by (unfold entries; rewrite map_app; reflexivity).
-    cbn [orb].
-    rewrite (IH (done ++ [t])); rewrite <- ?app_assoc; try assumption. reflexivity.
-Qed.
-
-Lemma fields_tagmap_entries unique fs : Forall comp_ok fs -> NoDup (map outer_key fs) ->
-  fields_tagmap unique fs = mkTmap (entries fs) [] None false.
-Proof. intros Hok Hnd. unfold fields_tagmap, empty_tmap. apply (combine_maps_entries unique fs [] Hok Hnd). Qed.
-
-Lemma app_same_length_nil {A} (pre x: list A) : pre ++ x = x -> pre = [].
-Proof. intros H. apply (f_equal (@length _)) in H. rewrite app_length in H. destruct pre; [reflexivity|cbn [length] in H; lia]. Qed.
-
-(* a tag map of components as a spec: resolves to the component whose tags are read *)
-Lemma sp_ok_map unique fs T0 : Forall comp_ok fs -> NoDup (map outer_key fs) -> In T0 fs ->
-  sp_ok (SMap (fields_tagmap unique fs)) T0.
-Proof.
-  intros Hok Hnd Hin. rewrite (fields_tagmap_entries unique fs Hok Hnd).
-  assert (HT0: comp_ok T0) by (rewrite Forall_forall in Hok; apply Hok; exact Hin).
-  split.
-  - intros rec f ts len sfun cd fl Hk Hby. unfold dispatch, tm_get. cbn [tm_postponed tm_present tm_default].
-    rewrite (find_entry fs ts T0 Hok Hnd Hin Hk). cbn [lift pbind]. rewrite Hby. destruct len; reflexivity.
-  - intros rec f t acc len pre Hk Hpre Hcon Hcls. unfold dispatch, tm_get. cbn [tm_postponed tm_present tm_default].
-    rewrite (find_entry_none fs (t :: acc)).
-    + cbn [lift pbind]. rewrite Hcon. cbn [andb]. destruct (tcls t); try congruence; destruct len; reflexivity.
-    + intros t' Ht' E.
-      assert (Ht'ok: comp_ok t') by (rewrite Forall_forall in Hok; apply Hok; exact Ht').
-      destruct (comp_keys t' Ht'ok) as (q & Eq & _). destruct (comp_keys T0 HT0) as (p0 & Ep & _).
-      assert (Eo: outer_key T0 = outer_key t').
-      { rewrite Hk, E, Eq, app_assoc in Ep. symmetry. apply (last_key_eq _ _ _ _ Ep). }
-      assert (Et: t' = T0) by (apply (NoDup_map_eq outer_key fs t' T0 Hnd Ht' Hin); congruence).
-      subst t'. rewrite <- E in Hk. apply Hpre. apply (app_same_length_nil _ _ (eq_sym Hk)).
-Qed.
-
-Fixpoint numbered (i: nat) (fs: list ty) : list (tagset * nat) :=
-  match fs with [] => [] | t :: r => (tagset_of' t, i) :: numbered (S i) r end.
-
-Lemma numbered_app : forall a b i, numbered i (a ++ b) = numbered i a ++ numbered (i + length a) b.
-Proof.
-  induction a as [|t a IH]; intros b i; [cbn; rewrite Nat.add_0_r; reflexivity|].
-  cbn [app numbered length]. rewrite IH. replace (S i + length a)%nat with (i + S (length a))%nat by lia. reflexivity.
-Qed.
-
-Lemma assoc_numbered_none : forall fs i ts, (forall t, In t fs -> keys ts <> keys (tagset_of' t)) ->
-  assoc tagset_eqb ts (numbered i fs) = None.
-Proof.
-  induction fs as [|t fs IH]; intros i ts H; [reflexivity|]. cbn [numbered assoc].
-  destruct (tagset_eqb ts (tagset_of' t)) eqn:E.
-  - apply tagset_eqb_keys in E. exfalso. apply (H t (or_introl eq_refl) E).
-  - apply IH. intros t' Ht'. apply H. right. exact Ht'.
-Qed.
-
-Lemma assoc_numbered : forall fs i T0 j, Forall comp_ok fs -> NoDup (map outer_key fs) -> nth_error fs j = Some T0 ->
-  assoc tagset_eqb (tagset_of' T0) (numbered i fs) = Some (i + j)%nat.
-Proof.
-  induction fs as [|t fs IH]; intros i T0 j Hok Hnd Hn; [destruct j; discriminate Hn|].
-  cbn [numbered assoc]. inversion Hok as [|? ? Ht Hokr]; subst. cbn [map] in Hnd. inversion Hnd as [|? ? Hnin Hndr]; subst.
-  destruct j as [|j].
-  - cbn in Hn. inversion Hn; subst. rewrite tagset_eqb_refl. rewrite Nat.add_0_r. reflexivity.
-  - cbn [nth_error] in Hn. pose proof (nth_error_In _ _ Hn) as Hin.
-    destruct (tagset_eqb (tagset_of' T0) (tagset_of' t)) eqn:E.
-    + apply tagset_eqb_keys in E. exfalso. apply Hnin.
-      assert (HT0: comp_ok T0) by (rewrite Forall_forall in Hokr; apply Hokr; exact Hin).
-      rewrite <- (same_keys_outer T0 t HT0 Ht E). apply in_map. exact Hin.
-    + rewrite (IH (S i) T0 j Hokr Hndr Hn). f_equal. lia.
-Qed.
-
-Lemma tag_to_pos_numbered : forall fs done,
-  Forall comp_ok (done ++ fs) -> NoDup (map outer_key (done ++ fs)) ->
-  tag_to_pos fs (length done) (numbered 0 done) = Some (numbered 0 (done ++ fs)).
-Proof.
-  induction fs as [|t fs IH]; intros done Hok Hnd.
-  - rewrite app_nil_r. reflexivity.
-  - cbn [tag_to_pos].
-    assert (Ht: comp_ok t) by (rewrite Forall_forall in Hok; apply Hok; apply in_or_app; right; left; reflexivity).
-    assert (Hdone: Forall comp_ok done) by (apply Forall_app in Hok; tauto).
-    assert (Hnin: ~ In (outer_key t) (map outer_key done)).
-    { rewrite map_app in Hnd. cbn [map] in Hnd. apply NoDup_remove_2 in Hnd. intros Hc. apply Hnd. apply in_or_app. left. exact Hc. }
-    pose proof (distinct_keys_of_outer done t Hdone Ht Hnin) as Hdist.
-    rewrite (comp_plain t Ht). cbn [tm_postponed tm_present map fst existsb].
-    rewrite (assoc_numbered_none done 0 (tagset_of' t)) by (intros t' Ht' E; apply (Hdist t' Ht'); symmetry; exact E).
-    cbn [orb].
-    replace (numbered 0 done ++ [(tagset_of' t, length done)]) with (numbered 0 (done ++ [t]))
-      by (rewrite numbered_app; reflexivity).
-    replace (S (length done)) with (length (done ++ [t])) by (rewrite app_length; cbn [length]; lia).
-    rewrite (IH (done ++ [t])); rewrite <- ?app_assoc; try assumption. reflexivity.
-Qed.
-
-Lemma position_entries fs T0 j : Forall comp_ok fs -> NoDup (map outer_key fs) -> nth_error fs j = Some T0 ->
-  position_by_type fs (tagset_of' T0) = Ok j.
-Proof.
-  intros Hok Hnd Hn. unfold position_by_type.
-  change (tag_to_pos fs 0 []) with (tag_to_pos fs (length (@nil ty)) (numbered 0 [])).
-  rewrite (tag_to_pos_numbered fs [] Hok Hnd). cbn [app]. rewrite (assoc_numbered fs 0 T0 j Hok Hnd Hn). reflexivity.
 Qed.
 
 (* ====================================================================== *)
@@ -2885,27 +3267,34 @@ Proof.
     rewrite H1, H2. split; [destruct p; reflexivity|reflexivity].
 Qed.
 
-Lemma nodupb_NoDup : forall l, nodupb l = true -> NoDup l.
+
+Lemma forallb_map_snd {A} (g: ty -> bool) (fs: list (A * ty)) : forallb g (map snd fs) = forallb (fun f => g (snd f)) fs.
+Proof. induction fs as [|x fs IH]; [reflexivity|]. cbn [map forallb]. rewrite IH. reflexivity. Qed.
+
+Lemma flat_map_map_snd {A B} (g: ty -> list B) (fs: list (A * ty)) : flat_map g (map snd fs) = flat_map (fun f => g (snd f)) fs.
+Proof. induction fs as [|x fs IH]; [reflexivity|]. cbn [map flat_map]. rewrite IH. reflexivity. Qed.
+
+(* the component types of a SET / a run: tag maps as expected, leaves told apart by their outermost tags *)
+Lemma comps_ok (fts: list ty) : forallb (fun t => frag t && mapable t) fts = true -> nodupb (flat_map okeys fts) = true ->
+  (forall t, In t fts -> tmok t) /\ NoDup (map lk (flat_map leaves fts)).
 Proof.
-  induction l as [|x r IH]; intros H; [constructor|].
-  cbn [nodupb] in H. apply andb_true_iff in H. destruct H as [H1 H2]. constructor; [|apply IH; exact H2].
-  intros Hin. apply negb_true_iff in H1. assert (E: existsb (tag_pair_eqb x) r = true); [|congruence].
-  apply existsb_exists. exists x. split; [exact Hin|]. unfold tag_pair_eqb. rewrite !N.eqb_refl. reflexivity.
+  intros Hf Hnd. split; [|apply (nodup_leaves fts Hf Hnd)].
+  intros t Ht. rewrite forallb_forall in Hf. specialize (Hf t Ht). apply andb_true_iff in Hf. destruct Hf as [H1 H2].
+  apply (tmok_frag t H1 H2).
 Qed.
 
-Lemma eff_tagset n ft v : frag ft = true -> effective_tagset (S n) ft v = tagset_of' ft.
-Proof. intros H. destruct ft; try reflexivity. discriminate H. Qed.
-
-Lemma set_steps_of_place (i: bool) f' L fs :
-  Forall (fun f => item_ok (snd f)) fs -> Forall comp_ok (map snd fs) -> NoDup (map outer_key (map snd fs)) ->
+Lemma set_steps_of_place (i: bool) h' f' L fs :
+  Forall (fun f => item_ok (snd f)) fs -> forallb (fun f => frag (snd f)) fs = true ->
+  (forall t, In t (map snd fs) -> tmok t) -> NoDup (map lk (flat_map leaves (map snd fs))) ->
   (forall k, In k (flat_map (fun f => side_keys (snd f) None) fs) -> memk k L = true) ->
+  (forall f0, In f0 fs -> (h' + ty_depth (snd f0) <= S f')%nat) ->
   forall kids slots slots' vs,
-  Forall (fun k => nok f' k /\ (i = true -> eoc_start (node_raw k) = false) /\ (0 < length (node_raw k))%nat) kids ->
+  Forall (fun k => nok h' k /\ (i = true -> eoc_start (node_raw k) = false) /\ (0 < length (node_raw k))%nat) kids ->
   Forall (fun k => safe L k = true) kids ->
   set_place fs kids (Some slots) = Some slots' -> slots_rel fs vs slots ->
   exists vs', set_steps (dec_call BER (S (S f'))) (S (S f')) fs i (map node_raw kids) vs vs' /\ slots_rel fs vs' slots'.
 Proof.
-  intros HIH Hok Hnd HL.
+  intros HIH Hfrs Hok Hnd HL Hfu.
   induction kids as [|k kids IHk]; intros slots slots' vs Hkids Hsk Hpl Hrel.
   - cbn [set_place] in Hpl. inversion Hpl; subst. exists vs. split; [constructor|exact Hrel].
   - destruct (set_place_step _ _ _ _ _ Hpl) as (slots1 & Hpick & Hpl').
@@ -2915,19 +3304,16 @@ Proof.
     assert (IH1: item_ok ft) by (rewrite Forall_forall in HIH; apply (HIH (p, ft) Hin)).
     assert (Hnf: nth_error (map snd fs) j = Some ft) by (rewrite (map_nth_error snd j fs Hn); reflexivity).
     pose proof (nth_error_In _ _ Hnf) as Hinf.
-    assert (Hfr: frag ft = true) by (rewrite Forall_forall in Hok; apply (Hok ft Hinf)).
-    destruct (frag_facts ft Hfr) as [Hw Htb].
-    destruct (comp_keys ft Hfr) as (_ & _ & Hk).
-    assert (Hkeys: keys (tagset_of' ft) = kets ft None ++ keys []) by (rewrite Hk, app_nil_r; reflexivity).
-    destruct (IH1 (SMap (fields_tagmap true (map snd fs))) ft [] None k a (S f') i L
-                (sp_ok_map true (map snd fs) ft Hok Hnd Hinf) Htb eq_refl Hkeys I
-                (nok_mono _ _ _ Hnk (Nat.le_succ_diag_r f')) Hke Hs1
-                (fun k0 Hk0 => HL k0 (proj2 (in_flat_map _ _ _) (ex_intro _ (p, ft) (conj Hin Hk0)))) Hint) as (v & Hc & Ha).
+    assert (Hfr: frag ft = true) by (rewrite forallb_forall in Hfrs; apply (Hfrs (p, ft) Hin)).
+    destruct (kid_item ft (SMap (fields_tagmap true (map snd fs))) i h' f' L k a IH1 Hfr
+                (sp_ok_map true (map snd fs) ft Hok Hnd Hinf)
+                (fun k0 Hk0 => HL k0 (proj2 (in_flat_map _ _ _) (ex_intro _ (p, ft) (conj Hin Hk0))))
+                Hnk (Hfu (p, ft) Hin) Hke Hs1 Hint) as (v & Hc & Ha & Hets & Hcd).
     destruct (IHk (set_slot j a slots) slots' (set_nth j (Some v) vs) Hkr Hsr Hpl') as (vs' & Hst & Hrel').
     { rewrite <- Ha. apply (slots_rel_set fs vs slots j p ft v Hrel Hn). }
     exists vs'. split; [|exact Hrel'].
     cbn [map]. apply (ss_cons _ _ fs i (node_raw k) (map node_raw kids) j ft v vs vs'); [split; [exact Hc|exact Hkl]| | |exact Hst].
-    + rewrite (eff_tagset _ ft v Hfr). apply (position_entries (map snd fs) ft j Hok Hnd Hnf).
+    + apply (position_leaf (map snd fs) ft j _ Hok Hnd Hnf). apply Hets. pose proof (Hfu (p, ft) Hin) as Hd. cbn [snd] in Hd. lia.
     + apply nth_error_Some. rewrite Hn. discriminate.
 Qed.
 
@@ -2957,22 +3343,29 @@ Proof.
     exists s'. split; [exact Hrun|]. repeat split; assumption.
 Qed.
 
-Lemma item_set fs : forallb (fun f => frag (snd f)) fs = true -> nodupb (map (fun f => outer_key (snd f)) fs) = true ->
-  Forall (fun f => item_ok (snd f)) fs -> item_ok (TSet fs).
+Lemma item_set fs : forallb (fun f => frag (snd f) && mapable (snd f)) fs = true ->
+  nodupb (flat_map (fun f => okeys (snd f)) fs) = true ->
+  Forall (fun f => item_ok (snd f)) fs -> item_ok0 (TSet fs).
 Proof.
-  intros Hfrs Hnd IH sp T0 acc e n a f allow L Hsp Htb Hbase Hkeys He Hok Heoc Hsafe HL Hint.
+  intros Hfrs Hnd IH sp T0 W d acc e n a h f allow L Hsp Hbase Hkeys He Hokh Hfuel Heoc Hsafe HL Hint.
   destruct (interp_set _ _ _ _ Hint) as (c & num & i & kids & raw & slots & l & -> & Hsame & Hpl & Hfin & ->).
-  destruct (nok_kids _ _ _ _ _ _ Hok) as (f' & -> & Hcnt & Hkids).
-  assert (Hcomp: Forall comp_ok (map snd fs)).
-  { apply Forall_forall. intros t Ht. apply in_map_iff in Ht. destruct Ht as (x & <- & Hx).
-    rewrite forallb_forall in Hfrs. apply (Hfrs x Hx). }
-  assert (HND: NoDup (map outer_key (map snd fs))) by (rewrite map_map; apply nodupb_NoDup; exact Hnd).
+  destruct (nok_kids _ _ _ _ _ _ Hokh) as (h' & -> & Hcnt & Hkids).
+  change (ty_depth (TSet fs)) with (S (fields_depth fs)) in Hfuel.
+  destruct (fuel_kids h' (fields_depth fs) f Hfuel) as (f' & -> & Hfu).
+  pose proof (nok_mono _ (S (S f')) _ Hokh ltac:(lia)) as Hok.
+  assert (Hfus: forall f0, In f0 fs -> (h' + ty_depth (snd f0) <= S f')%nat).
+  { intros f0 Hf0. pose proof (fields_depth_in fs f0 Hf0). lia. }
+  destruct (comps_ok (map snd fs)) as [Hcomp HND].
+  { rewrite forallb_map_snd. exact Hfrs. }
+  { rewrite flat_map_map_snd. exact Hnd. }
+  assert (Hfr1: forallb (fun f => frag (snd f)) fs = true).
+  { apply forallb_forall. intros x Hx. rewrite forallb_forall in Hfrs. specialize (Hfrs x Hx). apply andb_true_iff in Hfrs. tauto. }
   destruct fs as [|f0 fs0].
   - (* no components: no members *)
     destruct kids as [|k kids]; [|destruct (set_place_step _ _ _ _ _ Hpl) as (s1 & Hp & _); discriminate Hp].
     cbn in Hpl, Hfin. inversion Hpl; subst slots. inversion Hfin; subst l.
     exists (VRec []). split; [|reflexivity].
-    apply (base_item sp T0 acc e (Univ, 17) _ (S (S f')) allow DcSet (mkDecFlags true (Some KSet)) _ Hsp Htb); try assumption.
+    apply (base_item sp T0 W d acc e (Univ, 17) _ (S (S f')) allow DcSet (mkDecFlags true (Some KSet)) _ Hsp); try assumption.
     + rewrite Hbase. reflexivity.
     + cbn [node_wire node_len node_body dec_value tag0_cons tcon negb]. rewrite Hbase. cbn [base_of].
       intros s tl Hav. unfold dec_record. rewrite resume_tell. cbn [record_loop]. cbv zeta. rewrite resume_tell.
@@ -2982,11 +3375,11 @@ Proof.
         exists (adv s 2). repeat split.
       * cbn [kids_raw map concat length app]. rewrite Nat.sub_diag. cbn [N.of_nat N.ltb N.compare negb resume map].
         exists s. repeat split. lia.
-  - destruct (set_steps_of_place i f' L (f0 :: fs0) IH Hcomp HND HL kids _ slots _ Hkids (safe_kids _ _ _ _ _ _ Hsafe) Hpl
+  - destruct (set_steps_of_place i h' f' L (f0 :: fs0) IH Hfr1 Hcomp HND HL Hfus kids _ slots _ Hkids (safe_kids _ _ _ _ _ _ Hsafe) Hpl
                 (slots_rel_init (f0 :: fs0))) as (vs' & HS & Hrel).
     destruct (slots_rel_final _ _ _ _ Hrel Hfin) as [Hreq Habs].
     exists (VRec vs'). split; [|change (abs (TSet (f0 :: fs0)) (VRec vs')) with (ARec (RoundTrip2.abs_fields (f0 :: fs0) vs')); rewrite Habs; reflexivity].
-    apply (base_item sp T0 acc e (Univ, 17) _ (S (S f')) allow DcSet (mkDecFlags true (Some KSet)) _ Hsp Htb); try assumption.
+    apply (base_item sp T0 W d acc e (Univ, 17) _ (S (S f')) allow DcSet (mkDecFlags true (Some KSet)) _ Hsp); try assumption.
     + rewrite Hbase. reflexivity.
     + cbn [node_wire]. apply (set_value (S f') T0 (f0 :: fs0) _ acc c num i kids raw vs' Hbase eq_refl HS Hreq). lia.
 Qed.
@@ -3186,7 +3579,7 @@ Lemma nones_app {A B} (a b: list A) : @nones A B (a ++ b) = nones a ++ nones b.
 Proof. apply map_app. Qed.
 
 Definition seq_runs_ok (fs: list (presence * ty)) : bool :=
-  forallb (fun idx => nodupb (map outer_key (ambiguous_run (skipn idx fs)))) (seq 0 (length fs)).
+  forallb (fun idx => nodupb (flat_map okeys (ambiguous_run (skipn idx fs)))) (seq 0 (length fs)).
 
 Lemma skipn_app_len {A} (a b: list A) : skipn (length a) (a ++ b) = b.
 Proof. apply skipn_app_exact. Qed.
@@ -3197,20 +3590,21 @@ Proof.
   cbn [skipn] in H. right. apply IH. exact H.
 Qed.
 
-Lemma seq_steps_of_go (i: bool) f' L fs :
+Lemma seq_steps_of_go (i: bool) h' f' L fs :
   forallb (fun f => is_req (fst f)) fs = false ->
-  Forall (fun f => item_ok (snd f)) fs -> Forall comp_ok (map snd fs) -> seq_runs_ok fs = true ->
+  Forall (fun f => item_ok (snd f)) fs -> forallb (fun f => frag (snd f) && mapable (snd f)) fs = true -> seq_runs_ok fs = true ->
   (forall k, In k (flat_map (fun f => side_keys (snd f) None) fs) -> memk k L = true) ->
+  (forall f0, In f0 fs -> (h' + ty_depth (snd f0) <= S f')%nat) ->
   forall m todo, (length todo <= m)%nat -> forall done vdone kids l,
   fs = done ++ todo -> length vdone = length done ->
-  Forall (fun k => nok f' k /\ (i = true -> eoc_start (node_raw k) = false) /\ (0 < length (node_raw k))%nat) kids ->
+  Forall (fun k => nok h' k /\ (i = true -> eoc_start (node_raw k) = false) /\ (0 < length (node_raw k))%nat) kids ->
   Forall (fun k => safe L k = true) kids ->
   seq_go (fun ft k => interp ft None k) todo kids = Some l ->
   exists vt idx', seq_steps (dec_call BER (S (S f'))) (S (S f')) fs i (length done) (map node_raw kids)
                             (vdone ++ nones todo) idx' (vdone ++ vt)
     /\ length vt = length todo /\ RoundTrip2.abs_fields todo vt = l /\ required_seen todo vt = true.
 Proof.
-  intros Hnd HIH Hok Hruns HL.
+  intros Hnd HIH Hok Hruns HL Hfu.
   induction m as [|m IHm]; intros todo Hm done vdone kids l Hfs Hvd Hkids Hsk Hgo.
   - destruct todo; [|cbn [length] in Hm; lia].
     destruct kids as [|k kids]; [|discriminate Hgo]. cbn in Hgo. inversion Hgo; subst l.
@@ -3226,10 +3620,8 @@ Proof.
       assert (Hin: In (p, ft) fs) by (subst fs; apply in_or_app; right; apply in_or_app; right; left; reflexivity).
       assert (IH1: item_ok ft) by (rewrite Forall_forall in HIH; apply (HIH (p, ft) Hin)).
       assert (Hfr: frag ft = true).
-      { rewrite Forall_forall in Hok. apply Hok. apply in_map_iff. exists (p, ft). split; [reflexivity|exact Hin]. }
-      destruct (frag_facts ft Hfr) as [Hw Htb].
-      destruct (comp_keys ft Hfr) as (_ & _ & Hk).
-      assert (Hkeys: keys (tagset_of' ft) = kets ft None ++ keys []) by (rewrite Hk, app_nil_r; reflexivity).
+      { rewrite forallb_forall in Hok. specialize (Hok (p, ft) Hin). apply andb_true_iff in Hok. tauto. }
+      pose proof (Hfu (p, ft) Hin) as Hfuft. cbn [snd] in Hfuft.
       assert (HLft: forall k0, In k0 (side_keys ft None) -> memk k0 L = true).
       { intros k0 Hk0. apply HL. apply in_flat_map. exists (p, ft). split; [exact Hin|exact Hk0]. }
       assert (Hskip: skipn idx fs = pre ++ (p, ft) :: todo') by (subst fs idx; apply skipn_app_len).
@@ -3249,8 +3641,7 @@ Proof.
         destruct Hhd as (p0 & ft0 & Hn0 & Hcase). rewrite Hn0.
         destruct (is_req p0) eqn:Er.
         - destruct Hcase as [(-> & -> & ->)|Hc]; [|discriminate Hc].
-          destruct (IH1 (STy ft) ft [] None k a (S f') i L (sp_ok_sty ft Htb) Htb eq_refl Hkeys I
-                      (nok_mono _ _ _ Hnk (Nat.le_succ_diag_r f')) Hke Hs1 HLft Hint) as (v & Hc & Ha).
+          destruct (kid_item ft (STy ft) i h' f' L k a IH1 Hfr (sp_sty ft Hfr) HLft Hnk Hfuft Hke Hs1 Hint) as (v & Hc & Ha & _).
           exists (STy ft), v. split; [reflexivity|]. split; [exact Hc|]. split; [exact Ha|].
           cbn [length]. rewrite Nat.add_0_r. reflexivity.
         - rewrite Hskip.
@@ -3258,18 +3649,19 @@ Proof.
           assert (Hrn: nth_error run (length pre) = Some ft).
           { subst run. rewrite (run_app pre _ Hpre). destruct (run_head p ft todo') as (r0 & ->).
             rewrite nth_error_app2 by (rewrite map_length; lia). rewrite map_length, Nat.sub_diag. reflexivity. }
-          assert (Hrok: Forall comp_ok run).
-          { apply Forall_forall. intros t Ht. subst run. apply run_incl in Ht. rewrite Forall_forall in Hok. apply Hok.
-            rewrite <- Hskip in Ht. apply in_map_iff in Ht. destruct Ht as (x & <- & Hx). apply in_map.
-            apply (in_skipn' x idx fs Hx). }
-          assert (Hrnd: NoDup (map outer_key run)).
-          { apply nodupb_NoDup. unfold seq_runs_ok in Hruns. rewrite forallb_forall in Hruns.
+          assert (Hrsub: forall t, In t run -> In t (map snd fs)).
+          { intros t Ht. subst run. apply run_incl in Ht. rewrite <- Hskip in Ht. apply in_map_iff in Ht.
+            destruct Ht as (x & <- & Hx). apply in_map. apply (in_skipn' x idx fs Hx). }
+          destruct (comps_ok run) as [Hrok Hrnd].
+          { apply forallb_forall. intros t Ht. specialize (Hrsub t Ht). apply in_map_iff in Hrsub. destruct Hrsub as (x & <- & Hx).
+            rewrite forallb_forall in Hok. apply (Hok x Hx). }
+          { unfold seq_runs_ok in Hruns. rewrite forallb_forall in Hruns.
             specialize (Hruns idx). rewrite Hskip in Hruns. apply Hruns. apply in_seq. lia. }
           pose proof (nth_error_In _ _ Hrn) as Hrin.
-          destruct (IH1 (SMap (fields_tagmap false run)) ft [] None k a (S f') i L (sp_ok_map false run ft Hrok Hrnd Hrin) Htb eq_refl Hkeys I
-                      (nok_mono _ _ _ Hnk (Nat.le_succ_diag_r f')) Hke Hs1 HLft Hint) as (v & Hc & Ha).
+          destruct (kid_item ft (SMap (fields_tagmap false run)) i h' f' L k a IH1 Hfr (sp_ok_map false run ft Hrok Hrnd Hrin)
+                      HLft Hnk Hfuft Hke Hs1 Hint) as (v & Hc & Ha & Hets & Hcd).
           exists (SMap (fields_tagmap false run)), v. split; [reflexivity|]. split; [exact Hc|]. split; [exact Ha|].
-          rewrite (eff_tagset _ ft v Hfr). rewrite (position_entries run ft (length pre) Hrok Hrnd Hrn). reflexivity. }
+          rewrite (position_leaf run ft (length pre) _ Hrok Hrnd Hrn); [reflexivity|]. apply Hets. lia. }
       destruct Hmem as (sp & v & Hspec & Hcons & Ha & Hposn).
       (* the rest *)
       assert (Hlen': (length todo' <= m)%nat) by (rewrite !app_length in Hm; cbn [length] in Hm; lia).
@@ -3325,20 +3717,22 @@ Proof.
 Qed.
 
 Lemma item_seq_opt fs : forallb (fun f => is_req (fst f)) fs = false ->
-  forallb (fun f => frag (snd f)) fs = true -> seq_runs_ok fs = true ->
-  Forall (fun f => item_ok (snd f)) fs -> item_ok (TSeq fs).
+  forallb (fun f => frag (snd f) && mapable (snd f)) fs = true -> seq_runs_ok fs = true ->
+  Forall (fun f => item_ok (snd f)) fs -> item_ok0 (TSeq fs).
 Proof.
-  intros Hnd Hfrs Hruns IH sp T0 acc e n a f allow L Hsp Htb Hbase Hkeys He Hok Heoc Hsafe HL Hint.
+  intros Hnd Hfrs Hruns IH sp T0 W d acc e n a h f allow L Hsp Hbase Hkeys He Hokh Hfuel Heoc Hsafe HL Hint.
   destruct (interp_seq _ _ _ _ Hint) as (c & num & i & kids & raw & l & -> & Hsame & Hgo & ->).
-  destruct (nok_kids _ _ _ _ _ _ Hok) as (f' & -> & Hcnt & Hkids).
-  assert (Hcomp: Forall comp_ok (map snd fs)).
-  { apply Forall_forall. intros t Ht. apply in_map_iff in Ht. destruct Ht as (x & <- & Hx).
-    rewrite forallb_forall in Hfrs. apply (Hfrs x Hx). }
-  destruct (seq_steps_of_go i f' L fs Hnd IH Hcomp Hruns HL (length fs) fs (le_n _) [] [] kids l eq_refl eq_refl Hkids
+  destruct (nok_kids _ _ _ _ _ _ Hokh) as (h' & -> & Hcnt & Hkids).
+  change (ty_depth (TSeq fs)) with (S (fields_depth fs)) in Hfuel.
+  destruct (fuel_kids h' (fields_depth fs) f Hfuel) as (f' & -> & Hfu).
+  pose proof (nok_mono _ (S (S f')) _ Hokh ltac:(lia)) as Hok.
+  assert (Hfus: forall f0, In f0 fs -> (h' + ty_depth (snd f0) <= S f')%nat).
+  { intros f0 Hf0. pose proof (fields_depth_in fs f0 Hf0). lia. }
+  destruct (seq_steps_of_go i h' f' L fs Hnd IH Hfrs Hruns HL Hfus (length fs) fs (le_n _) [] [] kids l eq_refl eq_refl Hkids
               (safe_kids _ _ _ _ _ _ Hsafe) Hgo) as (vt & idx' & HS & Hlvt & Habs & Hreq).
   cbn [app length] in HS.
   exists (VRec vt). split; [|rewrite RoundTrip2.abs_seq, Habs; reflexivity].
-  apply (base_item sp T0 acc e (Univ, 16) _ (S (S f')) allow DcSeq (mkDecFlags true (Some KSeq)) _ Hsp Htb); try assumption.
+  apply (base_item sp T0 W d acc e (Univ, 16) _ (S (S f')) allow DcSeq (mkDecFlags true (Some KSeq)) _ Hsp); try assumption.
   - rewrite Hbase. reflexivity.
   - cbn [node_wire]. apply (seq_opt_value (S f') T0 fs _ acc c num i kids raw vt idx' Hbase Hnd HS Hreq). lia.
 Qed.
@@ -3356,9 +3750,10 @@ Proof.
   intros H. exists c, num, contents, raw, r. split; [reflexivity|]. split; [reflexivity|]. split; [exact Eo|congruence].
 Qed.
 
-Lemma item_real : item_ok TReal.
+Lemma item_real : item_ok0 TReal.
 Proof.
-  intros sp T0 acc e n a f allow L Hsp Htb Hbase Hkeys He Hok Heoc Hsafe HL Hint.
+  intros sp T0 W d acc e n a h f allow L Hsp Hbase Hkeys He Hokh Hfuel Heoc Hsafe HL Hint.
+  pose proof (nok_mono h f n Hokh ltac:(lia)) as Hok.
   destruct (interp_real _ _ _ Hint) as (c & num & cs & raw & ra & -> & Hsame & Hreal & ->).
   destruct Hok as (Hsh & Ho & Hfit).
   assert (Hm: real_mant_ok cs = true).
@@ -3367,11 +3762,133 @@ Proof.
     apply andb_true_iff in Hsafe. tauto. }
   destruct (real_leaf cs ra (octs_body _ Hsh Ho) Hreal Hm) as (r & Hdec & Habs).
   exists (VReal r). split; [|cbn [abs]; rewrite Habs; reflexivity].
-  apply (base_item sp T0 acc e (Univ, 9) _ f allow DcReal (mkDecFlags true (Some KReal)) _ Hsp Htb); try assumption.
+  apply (base_item sp T0 W d acc e (Univ, 9) _ f allow DcReal (mkDecFlags true (Some KReal)) _ Hsp); try assumption.
   - rewrite Hbase. reflexivity.
   - split; [exact Hsh|split; assumption].
   - cbn [dec_value node_len node_body node_wire].
     apply consumes_real; [reflexivity|apply (fits_of_body f _ Hfit Hsh)|exact Hbase|exact Hdec].
+Qed.
+
+(* ====================================================================== *)
+(* 10c. CHOICE                                                               *)
+(* ====================================================================== *)
+
+Definition choice_go (n: node) : list ty -> nat -> option aval :=
+  fix go (alts: list ty) (i: nat) : option aval :=
+    match alts with
+    | [] => None
+    | a :: r => if may_start a (node_tag n)
+                then opt_bind (interp a None n) (fun x => Some (AChoice i x))
+                else go r (S i)
+    end.
+
+Lemma choice_go_inv n : forall alts i a, choice_go n alts i = Some a ->
+  exists j alt x, nth_error alts j = Some alt /\ interp alt None n = Some x /\ a = AChoice (i + j) x.
+Proof.
+  induction alts as [|alt alts IH]; intros i a H; [discriminate H|].
+  cbn [choice_go] in H. destruct (may_start alt (node_tag n)).
+  - destruct (interp alt None n) as [x|] eqn:E; [|discriminate H]. cbn [opt_bind] in H. inversion H.
+    exists 0%nat, alt, x. rewrite Nat.add_0_r. repeat split; assumption.
+  - fold (choice_go n) in H. destruct (IH (S i) a H) as (j & alt' & x & H1 & H2 & H3).
+    exists (S j), alt', x. split; [exact H1|]. split; [exact H2|]. rewrite H3. f_equal. lia.
+Qed.
+
+Lemma interp_choice alts e n a : interp (TChoice alts) e n = Some a ->
+  e = None /\ exists j alt x, nth_error alts j = Some alt /\ interp alt None n = Some x /\ a = AChoice j x.
+Proof.
+  cbn [interp]. destruct e as [k|]; [discriminate|]. intros H. split; [reflexivity|].
+  apply (choice_go_inv n alts 0%nat a H).
+Qed.
+
+Lemma abs_choice : forall alts j alt v, nth_error alts j = Some alt -> abs (TChoice alts) (VChoice j v) = AChoice j (abs alt v).
+Proof.
+  intros alts j alt v Hn. cbn [abs].
+  assert (G: forall l k i, nth_error l k = Some alt ->
+             (fix go (alts: list ty) (k: nat) : aval :=
+                match alts, k with
+                | a :: _, O => AChoice i (abs a v)
+                | _ :: r, S k' => go r k'
+                | [], _ => ABad
+                end) l k = AChoice i (abs alt v)).
+  { induction l as [|a l IH]; intros k i H; [destruct k; discriminate H|].
+    destruct k as [|k]; [cbn in H; inversion H; reflexivity|]. cbn [nth_error] in H. apply (IH k i H). }
+  apply (G alts j j Hn).
+Qed.
+
+Lemma choice_parts alts : frag (TChoice alts) = true ->
+  (forall t, In t alts -> tmok t) /\ NoDup (map lk (flat_map leaves alts))
+  /\ (forall t, In t alts -> frag t = true /\ mapable t = true).
+Proof.
+  intros Hf. cbn [frag] in Hf. apply andb_true_iff in Hf. destruct Hf as [Hf Hnd].
+  destruct (comps_ok alts Hf Hnd) as [H1 H2]. split; [exact H1|]. split; [exact H2|].
+  intros t Ht. rewrite forallb_forall in Hf. specialize (Hf t Ht). apply andb_true_iff in Hf. exact Hf.
+Qed.
+
+(* an untagged CHOICE: whatever spec resolves to it resolves, one level of fuel lower, to its alternatives *)
+Lemma item_choice alts : frag (TChoice alts) = true -> Forall item_ok alts -> item_ok (TChoice alts).
+Proof.
+  intros Hfr IH sp T0 W d acc e n a h f allow L Hsp Hbase Hkeys [He Hun] Hokh Hfuel Heoc Hsafe HL Hint.
+  destruct (Hun eq_refl) as [-> ->].
+  destruct (interp_choice _ _ _ _ Hint) as (-> & j & alt & x & Hn & Hix & ->).
+  destruct (choice_parts alts Hfr) as (Htm & Hnd & Hfa).
+  pose proof (nth_error_In _ _ Hn) as Hin. destruct (Hfa alt Hin) as [Hfalt Hmalt].
+  change (ty_depth (TChoice alts)) with (S (alts_depth alts)) in Hfuel.
+  pose proof (alts_depth_in alts alt Hin) as Hdep.
+  destruct f as [|f']; [lia|].
+  pose proof (sp_ok_alt sp alts W d j alt Hsp Hn Htm Hnd (leaves_nonempty alt Hfalt Hmalt)) as Hsp'.
+  rewrite Forall_forall in IH.
+  assert (Hkeys': keys (tagset_of' alt) = kets alt None ++ keys []) by (rewrite (frag_keys alt Hfalt), app_nil_r; reflexivity).
+  destruct (IH alt Hin sp alt (fun v => W (VChoice j v)) (S d) [] None n x h f' allow L Hsp' eq_refl Hkeys'
+              (conj I (fun _ => conj eq_refl eq_refl)) Hokh ltac:(lia) Heoc Hsafe
+              (fun k0 Hk0 => HL k0 (proj2 (in_flat_map _ _ _) (ex_intro _ alt (conj Hin Hk0)))) Hix)
+    as (v & Hc & Ha & Hets & Hcd).
+  exists (VChoice j v). split; [replace (S f' + d)%nat with (f' + S d)%nat by lia; exact Hc|].
+  split; [rewrite (abs_choice alts j alt v Hn), Ha; reflexivity|].
+  split; [apply (ets_choice alts j alt v Hn Hets)|].
+  cbn [cdv]. rewrite (nth_error_nth alts j TNull Hn). change (ty_depth (TChoice alts)) with (S (alts_depth alts)). lia.
+Qed.
+
+(* a CHOICE under an EXPLICIT tag: the tag completes the tag set, the alternative follows with a header of its own *)
+Lemma item_exp_choice t alts : non_univ t = true -> frag (TChoice alts) = true -> Forall item_ok alts ->
+  item_ok0 (TExp t (TChoice alts)).
+Proof.
+  intros Ht Hfr IH sp T0 W d acc e n a h f allow L Hsp Hbase Hkeys [He _] Hokh Hfuel Heoc Hsafe HL Hint.
+  destruct (interp_exp _ _ _ _ _ Hint) as (c & num & i & k & raw & -> & Hsame & Hint').
+  destruct (interp_choice _ _ _ _ Hint') as (_ & j & alt & x & Hn & Hix & ->).
+  destruct (choice_parts alts Hfr) as (Htm & Hnd & Hfa).
+  pose proof (nth_error_In _ _ Hn) as Hin. destruct (Hfa alt Hin) as [Hfalt Hmalt].
+  destruct (nok_kids _ _ _ _ _ _ Hokh) as (h' & -> & Hcnt & Hkids).
+  change (ty_depth (TExp t (TChoice alts))) with (S (S (alts_depth alts))) in Hfuel.
+  pose proof (alts_depth_in alts alt Hin) as Hdep.
+  destruct (fuel_kids h' (S (alts_depth alts)) f Hfuel) as (f' & -> & Hfu).
+  pose proof (nok_mono _ (S (S f')) _ Hokh ltac:(lia)) as Hok.
+  inversion Hkids as [|? ? (Hnk & Hke & Hkl) _]; subst.
+  pose proof (safe_kids _ _ _ _ _ _ Hsafe) as Hsk. inversion Hsk as [|? ? Hsk1 _]; subst.
+  rewrite Forall_forall in IH.
+  destruct (kid_item alt (SMap (fields_tagmap true alts)) i h' f' L k x (IH alt Hin) Hfalt (sp_ok_map true alts alt Htm Hnd Hin)
+              (fun k0 Hk0 => HL k0 (proj2 (in_flat_map _ _ _) (ex_intro _ alt (conj Hin Hk0)))) Hnk ltac:(lia) Hke Hsk1 Hix)
+    as (v & Hc & Ha & Hets & Hcd).
+  exists (VChoice j v). split; [|rewrite abs_exp, (abs_choice alts j alt v Hn), Ha; reflexivity].
+  cbn [kets app] in Hkeys.
+  apply (base_item sp T0 W d acc e (key t) _ (S (S f')) allow DcChoice (mkDecFlags true (Some KChoice)) _ Hsp); try assumption.
+  - rewrite Hbase. reflexivity.
+  - assert (Hplace: choice_place (S (S f')) T0 alts (DV alt v) = Ret (DV T0 (VChoice j v))).
+    { unfold choice_place. rewrite (position_leaf alts alt j (effective_tagset (S (S (S f'))) alt v) Htm Hnd Hn); [reflexivity|].
+      apply Hets. lia. }
+    assert (Htag: tagset_eqb (tagset_of' T0) (node_wire (Cons c num i [k] raw) :: acc) = true).
+    { apply tagset_eqb_keys. rewrite Hkeys. cbn [keys map]. fold (keys acc). rewrite (same_tag_key _ _ Hsame). reflexivity. }
+    cbn [dec_value]. rewrite Hbase. cbn [base_of]. unfold dec_choice. rewrite Htag.
+    cbn [node_len node_body node_wire] in *. unfold kids_raw. cbn [map concat]. rewrite app_nil_r.
+    destruct i.
+    + (* indefinite: the alternative, then end-of-contents *)
+      intros s tl Hav. rewrite <- app_assoc in Hav. cbn [choice_loop].
+      destruct (Hc s ([0; 0] ++ tl) Hav) as (s1 & Hrun & Hp1 & Ha1 & Hc1).
+      assert (Hav1: avail s1 = 0 :: 0 :: tl) by (apply (consumes_avail (node_raw k) s _ s1 Hav Hp1 Ha1)).
+      rewrite (resume_pbind_done _ _ _ _ _ Hrun). rewrite Hplace. cbn [pbind choice_loop].
+      rewrite (resume_pbind_done _ _ _ _ _ (dec_call_eoo (S f') _ _ _ s1 tl Hav1)). cbn [resume].
+      exists (adv s1 2). split; [reflexivity|]. rewrite app_length. cbn [length].
+      rewrite pos_adv. split; [lia|]. split; [rewrite arrived_adv; exact Ha1|rewrite closed_adv; exact Hc1].
+    + rewrite ?app_nil_r. apply (consumes_bind_pure _ _ _ (DV alt v)); [exact Hc|exact Hplace].
 Qed.
 
 (* ====================================================================== *)
